@@ -32,8 +32,8 @@ PINS = {
     'collections.py::Track.__init__': '01f0c36a2b9a4fbb',            # SrcColl: `type(self)(xs)` is the model's `rewrap`
     'collections.py::CollectionBase.__init__': '998def96113cc433',
     'utils/functions.py::is_sub_list': 'a65933a1f69295ee',            # SrcRelate: the model's `isSubList`
-    '_geometry.py::do_edges_intersect': 'c6c432c7d6b4dfad',
-    '_geometry.py::ensure_edge_bounds': 'a705a05bf476cf50',                    # SrcCalc: the model's `ensureEdge`          # SrcRelate: the model's sweep (tied by C02's streams)
+    '_base.py::BaseShapeProtocol.copy': '0da86b9aedc16b8e',            # SrcMut: abstract in the protocol (= the model's `copy`)
+    '_geometry.py::ensure_edge_bounds': 'a705a05bf476cf50',                    # SrcCalc: the model's `ensureEdge` (SrcSweep translates it)
 }
 
 
@@ -134,6 +134,15 @@ def base_unit():
 #
 # a multi-shape is the list of its members (`μ`), the argument a single shape `σ`, a multi-shape (list of `σ`) or a
 # coordinate `κ`; the member-level relations `rc rs ri` are parameters about which nothing is assumed.
+#
+# round 2: `bounds` (`shape.bounds` of a member is the parameter `bnd`; `list(zip(*…))` over 4-tuples, `min` / `max` of a
+# sequence raise ValueError when it is empty), `__iter__`, and `split` — the one instance that works on *objects*: it is
+# declared `Heap T` (takes the heap of property dictionaries, returns (heap, result)); a call declared to create an
+# object (`shape.copy()` = the model's `copyMember`, `dict.copy()` = a new dictionary with the same items) threads the
+# heap, a comprehension over such calls is a left-to-right `GV.Py.mapH`, and `for x in xs: x.f = e` replaces every element
+# by the updated record — accepted only over a local list of objects this function created itself (a store through a list
+# whose elements may be shared, e.g. `self.geoshapes`, is outside the subset).  The receiver of `split` is
+# (members, `dt`, address of `_properties`).
 
 def multi_unit():
     src = py2lean.Source(_repo('_base.py'))
@@ -144,21 +153,58 @@ def multi_unit():
         Inst(f'{M}.contains_shape', 'containsMulti', [('self', 'List μ'), ('shape', 'List σ')], 'Bool'),
         Inst(f'{M}.intersects_shape', 'intersectsSingle', [('self', 'List μ'), ('shape', 'σ')], 'Bool'),
         Inst(f'{M}.intersects_shape', 'intersectsMulti', [('self', 'List μ'), ('shape', 'List σ')], 'Bool'),
+        # round 2
+        Inst(f'{M}.bounds', 'bounds', [('self', 'List μ')], 'Except Tuple4 R'),
+        Inst(f'{M}.__iter__', 'iter', [('self', 'List μ')], 'Iter μ'),
+        # `split` creates objects and stores into them: it takes the heap of property dictionaries and returns (heap, shapes);
+        # the receiver is (members, dt, address of `_properties`)
+        Inst(f'{M}.split', 'split', [('self', 'MultiH')], 'Heap List Shp'),
     ]
+    py2lean.LEAN_TYPE['HeapT'] = 'GV.Multi.Heap'
+    py2lean.LEAN_TYPE.setdefault('MultiH', 'List (GV.Multi.Shp γ) × Option GV.TI × Nat')
+    py2lean.LEAN_TYPE.setdefault('Shp', 'GV.Multi.Shp γ')
+    py2lean.LEAN_TYPE.setdefault('DictRef', 'Nat')
+    py2lean.LEAN_TYPE.setdefault('Iter μ', 'List μ')
+
+    class Known(set):
+        """classes an abstract type is known to be an instance of; `.no`: known not to be; any other class is undecided"""
+        def __init__(self, yes, no):
+            super().__init__(yes)
+            self.no = set(no)
 
     def isinstance_hook(typ):
-        return {'List σ': {'MultiShapeBase'}, 'List μ': {'MultiShapeBase'}, 'σ': {'SingleShapeBase'}, 'κ': {'Coordinate'}}.get(typ)
+        single = Known({'SingleShapeBase', 'BaseShape', 'BaseShapeProtocol'}, {'MultiShapeBase', 'Coordinate'})
+        multi = Known({'MultiShapeBase', 'BaseShape', 'BaseShapeProtocol'}, {'SingleShapeBase', 'Coordinate'})
+        return {'List σ': multi, 'List μ': multi, 'MultiH': multi, 'σ': single, 'μ': single,
+                'κ': Known({'Coordinate'}, {'MultiShapeBase', 'SingleShapeBase', 'BaseShape', 'BaseShapeProtocol'})}.get(typ)
 
     abstract = {
         ('μ', 'contains_coordinate', ('κ',)): ('rc {} {}', 'Bool'),
         ('μ', 'contains_shape', ('σ',)): ('rs {} {}', 'Bool'),
         ('μ', 'intersects_shape', ('σ',)): ('ri {} {}', 'Bool'),
+        ('List μ', '__iter__', ()): ('{}', 'Iter μ'),          # an iterator can only be handed on (it is consumed by use)
+        # objects: a member's `.copy()` is the model's `copyMember` (same geometry, copied `dt`, a *new* dictionary holding
+        # a deep copy of the properties); `dict.copy()` allocates a new dictionary with the same items
+        ('Shp', 'copy', ()): ('GV.Multi.copyMember {h} {0}', 'Heap Shp'),
+        ('DictRef', 'copy', ()): ('GV.Multi.Heap.alloc {h} (GV.Multi.Heap.read {h} {0})', 'Heap DictRef'),
     }
-    return Unit('SrcMulti', src, 'GV.Src.Multi', ['GeoVerif.Model.Multi'], insts,
-                {'List μ': M, 'List σ': M}, header='variable {μ σ κ : Type}',
-                attr_types={('List μ', 'geoshapes'): ('{}', 'List μ'), ('List σ', 'geoshapes'): ('{}', 'List σ')},
-                hooks={'isinstance': isinstance_hook},
-                ctx_params=[('rc', 'μ → κ → Bool'), ('rs', 'μ → σ → Bool'), ('ri', 'μ → σ → Bool')], abstract=abstract)
+    def iter_of(tr, args):
+        # `iter(xs)`: an iterator — a value that can only be handed on (looping over it would consume it)
+        if [x.typ for x in args] != ['List μ']:
+            raise Unsupported('iter(' + ', '.join(x.typ for x in args) + ')')
+        return Val(args[0].text, 'Iter μ')
+
+    return Unit('SrcMulti', src, 'GV.Src.Multi', ['GeoVerif.Model.Multi', 'GeoVerif.Model.PyColl'], insts,
+                {'List μ': M, 'List σ': M, 'MultiH': M}, header='variable {μ σ κ γ : Type}',
+                attr_types={('List μ', 'geoshapes'): ('{}', 'List μ'), ('List σ', 'geoshapes'): ('{}', 'List σ'),
+                            ('μ', 'bounds'): ('(bnd {})', 'Tuple4 R'),
+                            ('MultiH', 'geoshapes'): ('{}.1', 'List Shp'), ('MultiH', 'dt'): ('{}.2.1', 'Opt TI'),
+                            ('MultiH', '_properties'): ('{}.2.2', 'DictRef')},
+                intrinsics={'iter': iter_of},
+                hooks={'isinstance': isinstance_hook, 'decorators': {f'{M}.bounds': ['property']}, 'pycoll': True,
+                       'stores': {('Shp', '_properties'): ('props', 'DictRef'), ('Shp', 'dt'): ('dt', 'Opt TI')}},
+                ctx_params=[('rc', 'μ → κ → Bool'), ('rs', 'μ → σ → Bool'), ('ri', 'μ → σ → Bool'),
+                            ('bnd', 'μ → Rat × Rat × Rat × Rat')], abstract=abstract)
 
 
 # ----------------------------------------------------------------------------------------------------------
@@ -185,7 +231,55 @@ def coll_unit():
         Inst('FeatureCollection.__add__', 'fcAddTrack', [('self', 'GV.Coll'), ('other', 'TrackA')], 'Except GV.Coll'),
         Inst('Track.__add__', 'trackAddTrack', [('self', 'GV.Coll'), ('other', 'TrackA')], 'Except GV.Coll'),
         Inst('Track.__add__', 'trackAddFc', [('self', 'GV.Coll'), ('other', 'FCA')], 'Except GV.Coll'),
+        # the list protocol: every method hands the question to the list `self.geoshapes`
+        Inst(f'{C}.__contains__', 'contains', [('self', 'GV.Coll'), ('item', 'Item')], 'Bool'),
+        Inst(f'{C}.__iter__', 'iter', [('self', 'GV.Coll')], 'List GV.Coll.Shape'),
+        Inst(f'{C}.__len__', 'len', [('self', 'GV.Coll')], 'Nat'),
+        Inst('FeatureCollection.__iter__', 'fcIter', [('self', 'GV.Coll')], 'List GV.Coll.Shape'),
+        Inst('FeatureCollection.__len__', 'fcLen', [('self', 'GV.Coll')], 'Nat'),
+        Inst('FeatureCollection.__getitem__', 'fcGetIdx', [('self', 'GV.Coll'), ('item', 'Int')], 'Except GV.Coll.Shape'),
+        Inst('FeatureCollection.__getitem__', 'fcGetSlice', [('self', 'GV.Coll'), ('item', 'Slice3')],
+             'Except List GV.Coll.Shape'),
+        Inst('FeatureCollection.__eq__', 'fcEqFc', [('self', 'GV.Coll'), ('other', 'FCA')], 'Bool'),
+        Inst('FeatureCollection.__eq__', 'fcEqTrack', [('self', 'GV.Coll'), ('other', 'TrackA')], 'Bool'),
+        Inst('FeatureCollection.__eq__', 'fcEqOther', [('self', 'GV.Coll'), ('other', 'Query')], 'Bool'),
+        Inst('Track.__eq__', 'trackEqTrack', [('self', 'GV.Coll'), ('other', 'TrackA')], 'Bool'),
+        Inst('Track.__eq__', 'trackEqFc', [('self', 'GV.Coll'), ('other', 'FCA')], 'Bool'),
+        Inst('Track.__eq__', 'trackEqOther', [('self', 'GV.Coll'), ('other', 'Query')], 'Bool'),
     ]
+    py2lean.LEAN_TYPE.setdefault('Item', 'GV.Coll.Shape')
+    py2lean.LEAN_TYPE.setdefault('Slice3', 'Option Int × Option Int × Option Int')
+
+    SH = 'List GV.Coll.Shape'
+
+    def list_method(tr, recv, attr, args):
+        # the dunder methods of the builtin `list` that the collection delegates to, read as the model's list functions
+        # (negative indices, slices with a step, IndexError: `getIdx` / `getSlice` on the bare list)
+        if recv.typ != SH:
+            return None
+        if attr == '__iter__' and not args:
+            return Val(recv.text, SH)
+        if attr == '__len__' and not args:
+            return Val(f'({recv.text}).length', 'Nat')
+        if attr == 'copy' and not args:
+            return Val(recv.text, SH)
+        if attr == '__getitem__' and len(args) == 1:
+            a = tr.expr(args[0])
+            if a.typ == 'Int':
+                v = Val(f'(GV.Coll.getIdx (GV.Coll.mkFC {recv.text}) {a.text})', 'GV.Coll.Shape')
+            elif a.typ == 'Slice3':
+                v = Val(f'(GV.Coll.getSlice (GV.Coll.mkFC {recv.text}) {a.text}.1 {a.text}.2.1 {a.text}.2.2)', SH)
+            else:
+                raise Unsupported(f'list.__getitem__ at {a.typ}')
+            v.raises = True
+            return v
+        return None
+
+    def list_eq(tr, a, b):
+        # `xs == ys` on lists of shapes: same length and pairwise `x is y or x == y`
+        if a.typ == b.typ == SH:
+            return Val(f'(GV.Coll.listEq {a.text} {b.text})', 'Bool')
+        return None
     py2lean.LEAN_TYPE.setdefault('Str', 'String')
     py2lean.LEAN_TYPE.setdefault('PVal', 'GV.Coll.PVal')
     py2lean.LEAN_TYPE.setdefault('Props', 'List (String × GV.Coll.PVal)')
@@ -224,6 +318,8 @@ def coll_unit():
         ('GV.Coll.Shape', 'intersects', ('Query',)): ('xi {0}', 'Bool'),
         ('GV.Coll.Shape', 'contains', ('Query',)): ('xc {0}', 'Bool'),
         ('Query', 'contains', ('GV.Coll.Shape',)): ('qc {1}', 'Bool'),
+        # `item in self.geoshapes`: the list's membership test is `x is item or x == item`
+        ('List GV.Coll.Shape', '__contains__', ('Item',)): ('({0}).any (GV.Coll.sameOrEq {1})', 'Bool'),
     }
     py2lean.LEAN_TYPE.setdefault('Query', 'Unit')
     return Unit('SrcColl', src, 'GV.Src.Coll', ['GeoVerif.Gen.SrcTime', 'GeoVerif.Model.Collection', 'GeoVerif.Model.PyPrelude'], insts,
@@ -237,6 +333,7 @@ def coll_unit():
                             ('GV.Coll.Shape', 'dt'): ('{}.dt', 'Opt TI'), ('Query', 'dt'): ('qdt', 'Opt TI')},
                 intrinsics={'default_to_zulu': zulu, 'FeatureCollection': fc_ctor, 'Track': track_ctor},
                 hooks={'isinstance': isinstance_hook, 'type_ctor': type_ctor, 'always_truthy': ('TI', 'Dt'),
+                       'method': list_method, 'eq': list_eq,
                        'local_type': lambda qual, name: {('CollectionBase.filter_by_property', 'filtered_shapes'):
                                                          'List GV.Coll.Shape'}.get((qual, name))},
                 ctx_params=[('qdt', 'Option GV.TI'), ('xi', 'GV.Coll.Shape → Bool'), ('xc', 'GV.Coll.Shape → Bool'),
@@ -305,6 +402,16 @@ def member_unit():
 # the slice bounds are `a b : Option Int` (`val.start`, `val.stop` as instants; `default_to_zulu` pinned as for SrcColl);
 # `x.start` / `x.end` of a member are the model's `startD` / `endD` (a Track holds no time-less shape); `Track(xs)` is
 # the model's `mkTrack`; the local set `_ts` is the list of its elements, newest first.
+#
+# round 2 — the rest of the class: `first` / `last` / `start` / `end` (`xs[0]`, `xs[-1]` with Python's index rule),
+# `time_start_diffs` / `centroid_distances` (`[f(x, y) for x, y in zip(xs, xs[1:])]` -> `List.map`, `np.array` the
+# identity), `copy`, `__eq__` (one instance per class of the other operand; `xs == ys` on member lists is pairwise
+# `x is y or x == y`), `convolve_duplicate_timestamps` (the `defaultdict(list)` is an insertion-ordered association list,
+# `d[k].append(v)` is `GV.Py.ddAppend`; the loop over `.items()` with `continue`; `list(zip(*pairs))`, `sum`, `/` — which
+# raises on a zero divisor —, the dict comprehension and the `GeoPoint(Coordinate(…), _ts, properties=…)` record),
+# `filter_by_time` (`.time()` of an instant is the model's `tod`), `filter_impossible_journeys` (`range`, `len`, lists indexed
+# by the int variables `i`, `j` — every lookup may raise IndexError —, `continue`, `np.isnan` of an exact rational is
+# False).  The haversine distance of two centroids is the parameter `dist` of the two shapes: nothing is assumed of it.
 
 def track_unit():
     src = py2lean.Source(_repo('collections.py'))
@@ -313,8 +420,29 @@ def track_unit():
         Inst(f'{T}.__init__', 'init', [('self', 'None'), ('geoshapes', 'List GV.Coll.Shape')], 'Except GV.Coll'),
         Inst(f'{T}.__getitem__', 'getitem', [('self', 'GV.Coll'), ('val', 'Slice')], 'Except GV.Coll'),
         Inst(f'{T}.has_duplicate_timestamps', 'hasDup', [('self', 'GV.Coll')], 'Bool'),
+        # the rest of the class (round 2): views, pairwise differences, copy, convolution, time-of-day and speed filters
+        Inst(f'{T}.copy', 'copy', [('self', 'GV.Coll')], 'Except GV.Coll'),
+        Inst(f'{T}.first', 'first', [('self', 'GV.Coll')], 'Except GV.Coll.Shape'),
+        Inst(f'{T}.last', 'last', [('self', 'GV.Coll')], 'Except GV.Coll.Shape'),
+        Inst(f'{T}.start', 'startT', [('self', 'GV.Coll')], 'Except Dt'),
+        Inst(f'{T}.end', 'endT', [('self', 'GV.Coll')], 'Except Dt'),
+        Inst(f'{T}.time_start_diffs', 'timeStartDiffs', [('self', 'GV.Coll')], 'Except List Td'),
+        Inst(f'{T}.centroid_distances', 'centroidDistances', [('self', 'GV.Coll')], 'Except List R'),
+        Inst(f'{T}.convolve_duplicate_timestamps', 'convolve', [('self', 'GV.Coll')], 'Except GV.Coll'),
+        Inst(f'{T}.filter_by_time', 'filterByTime', [('self', 'GV.Coll'), ('start_time', 'Int'), ('end_time', 'Int')],
+             'Except GV.Coll', doc='times of day as microseconds since midnight'),
+        Inst(f'{T}.filter_impossible_journeys', 'journeys', [('self', 'GV.Coll'), ('max_speed', 'R')], 'Except GV.Coll'),
+        Inst(f'{T}.__eq__', 'eqTrack', [('self', 'GV.Coll'), ('other', 'TrackA')], 'Bool'),
+        Inst(f'{T}.__eq__', 'eqOther', [('self', 'GV.Coll'), ('other', 'FCA')], 'Bool', doc='an operand that is not a Track'),
     ]
+    py2lean.LEAN_TYPE.setdefault('FCA', 'GV.Coll')
+    py2lean.LEAN_TYPE.setdefault('TrackA', 'GV.Coll')
     py2lean.LEAN_TYPE.setdefault('Slice', 'Unit')
+    py2lean.LEAN_TYPE.setdefault('Str', 'String')
+    py2lean.LEAN_TYPE.setdefault('PVal', 'GV.Coll.PVal')
+    py2lean.LEAN_TYPE.setdefault('Props', 'List (String × GV.Coll.PVal)')
+    py2lean.LEAN_TYPE.setdefault('Cen', 'GV.Coll.Shape')          # a centroid is known by the shape it belongs to
+    py2lean.LEAN_TYPE.setdefault('TrkXY', 'Rat × Rat')
 
     def zulu(tr, args):
         if args[-1].typ != 'Dt':
@@ -329,7 +457,63 @@ def track_unit():
         return v
 
     def local_type(qual, name):
-        return {('Track.has_duplicate_timestamps', '_ts'): 'Set Opt TI'}.get((qual, name))
+        return {('Track.has_duplicate_timestamps', '_ts'): 'Set Opt TI',
+                ('Track.convolve_duplicate_timestamps', '_timestamp_grouping'): 'DDL (Opt TI) GV.Coll.Shape',
+                ('Track.convolve_duplicate_timestamps', 'new_pings'): 'List GV.Coll.Shape'}.get((qual, name))
+
+    def haversine(tr, args):
+        # the distance of two centroids is the parameter `dist` (of the two shapes), about which nothing is assumed
+        if [x.typ for x in args] != ['Cen', 'Cen']:
+            raise Unsupported('haversine_distance_meters(' + ', '.join(x.typ for x in args) + ')')
+        return Val(f'(dist {py2lean._paren(args[0].text)} {py2lean._paren(args[1].text)})', 'R')
+
+    def np_array(tr, args):
+        if len(args) != 1 or not args[0].typ.startswith('List '):
+            raise Unsupported('np.array(' + ', '.join(x.typ for x in args) + ')')
+        return args[0]
+
+    def np_isnan(tr, args):
+        if [x.typ for x in args] not in (['R'], ['Int']):
+            raise Unsupported('np.isnan(' + ', '.join(x.typ for x in args) + ')')
+        return Val('false', 'Bool')                   # an exact rational is a number
+
+    def coordinate(tr, args):
+        # `Coordinate(lon, lat)`: the pair (normalisation is C08's subject; a mean of in-range values is in range)
+        if [x.typ for x in args] != ['R', 'R']:
+            raise Unsupported('Coordinate(' + ', '.join(x.typ for x in args) + ')')
+        return Val(f'({args[0].text}, {args[1].text})', 'TrkXY')
+
+    def geopoint(tr, args):
+        # `GeoPoint(coord, dt, properties=p)`: a new shape (identity / equality class -1 as in the model)
+        props = getattr(tr, 'kw_props', None)
+        tr.kw_props = None
+        if [x.typ for x in args] != ['TrkXY', 'Opt TI'] or props is None or props.typ != 'Props':
+            raise Unsupported('GeoPoint(' + ', '.join(x.typ for x in args) + ', properties=…)')
+        return Val(f'({{ id := -1, eqc := -1, dt := {args[1].text}, props := {props.text}, lon := {args[0].text}.1, '
+                   f'lat := {args[0].text}.2 }} : GV.Coll.Shape)', 'GV.Coll.Shape')
+
+    def keywords(tr, e):
+        name = getattr(e.func, 'id', None)
+        if name == 'sorted':
+            return True
+        if name == 'GeoPoint' and [k.arg for k in e.keywords] == ['properties']:
+            tr.kw_props = tr.expr(e.keywords[0].value)
+            return True
+        return False
+
+    def isinstance_hook(typ):
+        return {'GV.Coll': {'CollectionBase', 'Track'}, 'TrackA': {'CollectionBase', 'Track'},
+                'FCA': {'CollectionBase', 'FeatureCollection'}}.get(typ)
+
+    def eq_hook(tr, x, y):
+        # `xs == ys` on lists of shapes: same length and, pairwise, `x is y or x == y`
+        if x.typ == y.typ == 'List GV.Coll.Shape':
+            return Val(f'(GV.Py.listEq GV.Coll.sameOrEq {x.text} {y.text})', 'Bool')
+        return None
+
+    def expr_stmt(tr, e):
+        import ast as _ast
+        return isinstance(e, _ast.Call) and isinstance(e.func, _ast.Name) and e.func.id == 'warn_once'      # a warning
 
     def sorted_hook(tr, e):
         # `sorted(xs, key=lambda x: x.start)`: Python's sort is stable, so is the model's merge sort by start
@@ -355,15 +539,24 @@ def track_unit():
     attr = {('GV.Coll', 'geoshapes'): ('{}.shapes', 'List GV.Coll.Shape'),
             ('GV.Coll.Shape', 'dt'): ('{}.dt', 'Opt TI'), ('GV.Coll.Shape', 'start'): ('{}.startD', 'Dt'),
             ('GV.Coll.Shape', 'end'): ('{}.endD', 'Dt'),
-            ('Slice', 'start'): ('a', 'Opt Dt'), ('Slice', 'stop'): ('b', 'Opt Dt')}
-    return Unit('SrcTrack', src, 'GV.Src.Track', ['GeoVerif.Model.Track', 'GeoVerif.Model.PyPrelude'], insts,
-                {'GV.Coll': T}, attr_types=attr,
+            ('Slice', 'start'): ('a', 'Opt Dt'), ('Slice', 'stop'): ('b', 'Opt Dt'),
+            ('GV.Coll.Shape', 'centroid'): ('{}', 'Cen'), ('GV.Coll.Shape', '_properties'): ('{}.props', 'Props'),
+            ('TrackA', 'geoshapes'): ('{}.shapes', 'List GV.Coll.Shape'), ('FCA', 'geoshapes'): ('{}.shapes', 'List GV.Coll.Shape')}
+    abstract = {
+        ('Td', 'total_seconds', ()): ('GV.Py.totalSeconds {0}', 'R'),
+        ('Dt', 'time', ()): ('GV.Coll.Track.tod {0}', 'Int'),            # time of day of a UTC instant
+        ('Cen', 'to_float', ()): ('({0}.lon, {0}.lat)', 'Prod R R'),
+        ('Props', 'items', ()): ('{0}', 'List Prod Str PVal'),
+    }
+    return Unit('SrcTrack', src, 'GV.Src.Track', ['GeoVerif.Model.Track', 'GeoVerif.Model.PyPrelude', 'GeoVerif.Model.PyColl'], insts,
+                {'GV.Coll': T}, attr_types=attr, abstract=abstract,
                 pins={k: PINS[k] for k in ('utils/functions.py::default_to_zulu', 'collections.py::CollectionBase.__init__')},
-                intrinsics={'default_to_zulu': zulu, 'Track': track_ctor},
-                hooks={'isinstance': lambda typ: None, 'always_truthy': ('TI', 'Dt'), 'local_type': local_type,
+                intrinsics={'default_to_zulu': zulu, 'Track': track_ctor, 'haversine_distance_meters': haversine,
+                            'np.array': np_array, 'np.isnan': np_isnan, 'Coordinate': coordinate, 'GeoPoint': geopoint},
+                hooks={'isinstance': isinstance_hook, 'always_truthy': ('TI', 'Dt'), 'local_type': local_type,
                        'sorted': sorted_hook, 'super_init': super_init, 'init': init_hook,
-                       'keywords': lambda tr, e: getattr(e.func, 'id', None) == 'sorted'},
-                ctx_params=[('a', 'Option Int'), ('b', 'Option Int')])
+                       'keywords': keywords, 'expr_stmt': expr_stmt, 'eq': eq_hook, 'pycoll': True},
+                ctx_params=[('a', 'Option Int'), ('b', 'Option Int'), ('dist', 'GV.Coll.Shape → GV.Coll.Shape → Rat')])
 
 
 # ----------------------------------------------------------------------------------------------------------
@@ -372,7 +565,8 @@ def track_unit():
 # every shape is a `GV.Shape`; the static tag of the argument (multi / point-like / polygon-like / line-like) picks the
 # instance.  What the logic *uses* is abstract: `edgesOf` (`edges()`), `segsOf` (`segments`), `cc` (`coord in shape`,
 # `contains_coordinate`), `tc` (`_touches_coordinate`), `holesOf`, `cen` (`centroid`), `rs ri` (the recursive calls on a
-# member of a multi-shape argument).  `do_edges_intersect` is the model's sweep (pinned; tied by C02's own streams).
+# member of a multi-shape argument).  `do_edges_intersect` is read as the model's sweep: no longer pinned — SrcSweep translates
+# it and Props/C02SrcSweep proves the translation equal to that sweep (`doEdgesIntersect_eq_model`).
 
 def relate_unit():
     src = py2lean.Source(_repo('structures.py'))
@@ -450,7 +644,7 @@ def relate_unit():
             ('PolyS', 'holes'): ('(holesOf {})', 'List Hole')}
     return Unit('SrcRelate', src, 'GV.Src.Relate', ['GeoVerif.Model.Relate', 'GeoVerif.Model.PyPrelude'], insts,
                 {'PolyS': P, 'LineS': 'GeoLineString', 'PtS': 'GeoPoint'}, attr_types=attr, abstract=abstract,
-                pins={k: PINS[k] for k in ('_geometry.py::do_edges_intersect', 'utils/functions.py::is_sub_list')},
+                pins={k: PINS[k] for k in ('utils/functions.py::is_sub_list',)},
                 intrinsics={'do_edges_intersect': sweep, 'is_sub_list': sub_list},
                 hooks={'isinstance': isinstance_hook, 'keywords': lambda tr, e: True},
                 ctx_params=[('edgesOf', 'GV.Shape → List (List GV.Edge)'), ('segsOf', 'GV.Shape → List GV.Edge'),
@@ -616,9 +810,1060 @@ def calc_unit():
     return unit
 
 
+# ----------------------------------------------------------------------------------------------------------
+# geostructures/coordinates.py :: Coordinate.to_dms / from_dms / to_qdms / from_qdms and their local helpers   (C19)
+#
+# a `str` is the list of its characters (`Chars`), a float an exact rational (§3), the receiver the model's `Coord`
+# record; the local functions (`convert` ×3, `zero_pad` at an int and at a str) are instances of their own
+# (`outer.inner`).  Translated from the text: hemisphere selection, `abs`, the `divmod` chain, `int(...)`, the tuple
+# plumbing (`*convert(...)`, `*lon_dms`), `zero_pad` (`str`, `.replace`, `'0' * (length - len(_)) + _`), the list of
+# fields and the f-string assembly, the slices `lon[1:4]` … on the way back, `lon[0]` (IndexError), the evaluation
+# order of the `float(...)` calls (ValueError), the sign factor.  Declared, not translated: `round_half_up` (pinned;
+# the model's exact half-up rounding, DESIGN §6 C19), `float(text)` and `f'{x:.2f}'` (Python runtime, read as
+# `Model/Dms.lean` reads them: `GV.PyStr.parseFloat`, `GV.PyStr.fmtF2`), `Coordinate(x, y)` (the model's `Coord.new`;
+# the constructor is SrcCoord's subject).
+
+PINS.setdefault('utils/functions.py::round_half_up', '77e90ff33328c6e2')          # SrcDms: the model's `roundHalfUp`
+
+
+def dms_unit():
+    import ast as _ast
+    import re as _re
+    src = py2lean.Source(_repo('coordinates.py'))
+    C = 'Coordinate'
+    DI, DF = 'Prod Int Int R Chars', 'Prod R R R Chars'
+    insts = [
+        Inst(f'{C}.to_dms.convert', 'toDms.convert', [('dd', 'R')], 'Prod Int Int R'),
+        Inst(f'{C}.to_dms', 'toDms', [('self', 'CoordO')], f'Pair {DI}'),
+        Inst(f'{C}.from_dms.convert', 'fromDms.convert', [('dms', DF)], 'R'),
+        Inst(f'{C}.from_dms', 'fromDms', [('cls', 'None'), ('lon', DF), ('lat', DF)], 'CoordO'),
+        Inst(f'{C}.to_qdms.zero_pad', 'toQdms.zeroPadInt', [('num', 'Int'), ('length', 'Int')], 'Chars'),
+        Inst(f'{C}.to_qdms.zero_pad', 'toQdms.zeroPadStr', [('num', 'Chars'), ('length', 'Int')], 'Chars'),
+        Inst(f'{C}.to_qdms', 'toQdms', [('self', 'CoordO'), ('reverse', 'Bool')], 'Pair Chars'),
+        Inst(f'{C}.from_qdms.convert', 'fromQdms.convert', [('q', 'Chars'), ('d', 'Chars'), ('m', 'Chars'), ('s', 'Chars')], 'Except R'),
+        Inst(f'{C}.from_qdms', 'fromQdms', [('cls', 'None'), ('lon', 'Chars'), ('lat', 'Chars')], 'Except CoordO'),
+    ]
+    py2lean.LEAN_TYPE.setdefault('Chars', 'List Char')
+    py2lean.LEAN_TYPE.setdefault('CoordO', 'GV.CoordObj.Coord')
+
+    def nat_literal(v):
+        m = _re.fullmatch(r'\((\d+) : Int\)', v.text)
+        return int(m.group(1)) if m and v.typ == 'Int' else None
+
+    def types(args):
+        return [a.typ for a in args]
+
+    def rhu(tr, args):
+        # round_half_up(value, precision) with a literal precision: the model's exact half-up rounding (pinned helper)
+        if len(args) != 2 or args[0].typ != 'R' or nat_literal(args[1]) is None:
+            raise Unsupported('round_half_up(' + ', '.join(a.text for a in args)[:60] + ')')
+        return Val(f'(GV.Dms.roundHalfUp {args[0].text} {nat_literal(args[1])})', 'R')
+
+    def divmod_(tr, args):
+        # divmod(float, positive literal): cannot raise
+        if len(args) != 2 or args[0].typ != 'R' or not nat_literal(args[1]):
+            raise Unsupported('divmod(' + ', '.join(a.text for a in args)[:60] + ')')
+        return Val(f'(GV.PyStr.divmodR {args[0].text} ({args[1].text} : Rat))', 'Prod R R')
+
+    def abs_(tr, args):
+        if types(args) == ['R']:
+            return Val(f'(GV.absR {args[0].text})', 'R')
+        if types(args) == ['Int']:
+            return Val(f'(GV.PyStr.absI {args[0].text})', 'Int')
+        raise Unsupported(f'abs of {types(args)}')
+
+    def int_(tr, args):
+        if types(args) == ['R']:
+            return Val(f'(GV.PyStr.truncR {args[0].text})', 'Int')
+        if types(args) == ['Int']:
+            return args[0]
+        raise Unsupported(f'int() of {types(args)}')          # int(text) is not part of the unit
+
+    def str_(tr, args):
+        if types(args) == ['Int']:
+            return Val(f'(GV.PyStr.strInt {args[0].text})', 'Chars')
+        if types(args) == ['Chars']:
+            return args[0]
+        raise Unsupported(f'str() of {types(args)}')          # str(float) is runtime: not part of the unit
+
+    def len_(tr, args):
+        if types(args) == ['Chars']:
+            return Val(f'((({args[0].text}).length : Nat) : Int)', 'Int')
+        raise Unsupported(f'len() of {types(args)}')
+
+    def float_(tr, args):
+        if types(args) == ['R']:
+            return args[0]
+        if types(args) == ['Int']:
+            return Val(f'({args[0].text} : Rat)', 'R')
+        if types(args) == ['Chars']:
+            v = Val(f'(GV.PyStr.parseFloat {args[0].text})', 'R')
+            v.raises = True                                      # ValueError
+            return v
+        raise Unsupported(f'float() of {types(args)}')
+
+    def coordinate(tr, args):
+        if types(args) != ['R', 'R']:
+            raise Unsupported('Coordinate(' + ', '.join(types(args)) + ')')
+        return Val(f'(GV.CoordObj.Coord.new {args[0].text} {args[1].text})', 'CoordO')
+
+    def fmt2f(tr, args):
+        if types(args) != ['R']:
+            raise Unsupported(f'format spec .2f of {types(args)}')
+        return Val(f'(GV.PyStr.fmtF2 {args[0].text})', 'Chars')
+
+    def method(tr, recv, attr, args):
+        if recv.typ != 'Chars':
+            return None
+        if attr == 'replace' and len(args) == 2 and isinstance(args[0], _ast.Constant) and isinstance(args[0].value, str) \
+                and len(args[0].value) == 1:
+            new = tr.expr(args[1])
+            if new.typ != 'Chars':
+                raise Unsupported(f'str.replace with a replacement of type {new.typ}')
+            c = py2lean.chars_literal(args[0].value)[2:].split(']')[0]
+            return Val(f'(GV.PyStr.replace1 {recv.text} {c} {new.text})', 'Chars')
+        if attr == 'join' and len(args) == 1:
+            xs = tr.expr(args[0])
+            if xs.typ != 'List Chars':
+                raise Unsupported(f'str.join of {xs.typ}')
+            return Val(f'(GV.PyStr.join {recv.text} {xs.text})', 'Chars')
+        raise Unsupported(f'str method `.{attr}`')
+
+    intr = {'round_half_up': rhu, 'divmod': divmod_, 'abs': abs_, 'int': int_, 'str': str_, 'len': len_, 'float': float_,
+            'Coordinate': coordinate, 'format:.2f': fmt2f}
+    return Unit('SrcDms', src, 'GV.Src.Dms', ['GeoVerif.Model.Dms', 'GeoVerif.Model.PyStr'], insts, {'CoordO': C},
+                attr_types={('CoordO', 'longitude'): ('{}.lon', 'R'), ('CoordO', 'latitude'): ('{}.lat', 'R')},
+                pins={'utils/functions.py::round_half_up': PINS['utils/functions.py::round_half_up']},
+                intrinsics=intr,
+                hooks={'isinstance': lambda typ: None, 'str_const': True, 'tuples': True, 'method': method,
+                       'intrinsics_first': ('float', 'int', 'str', 'len', 'abs', 'divmod')})
+
+
+# ----------------------------------------------------------------------------------------------------------
+# geostructures/geohash.py :: NiemeyerHasher — the work-list flood fill and what is built on it   (C12)
+#
+# generic over a cell type `C` (decidable equality), a coordinate type `K`, single shapes `S`, shapes of any kind `G` and an
+# aggregate type `A`.  The geometry is abstract, exactly as in Model/Flood.lean: `nbrs` is `self._get_surrounding(·, self.base)`,
+# `touches s c` is `niemeyer_to_geobox(c, self.base).intersects_shape(s)`, `cellOf` is `_coord_to_niemeyer(·, self.length,
+# self.base)`; `cen`, `verts`, `bcoords` read `.centroid`, `.vertices`, `.bounding_coords()`; a multi-shape is the list of its
+# members.  `queue.pop()` returns `pick queue` (Python pops an arbitrary member: the schedule is a parameter, `none` is the
+# KeyError of an empty set); local sets are duplicate-free lists (`set.add` is the model's `addSet`), `defaultdict(list)` an
+# association list in insertion order; the `while queue:` loop is a fuelled recursion that reports running out of fuel.
+# In `hash_collection` the dynamic dispatch `self.hash_shape(shape)` over a mixed collection is the parameter `hashOf`;
+# `kwargs.get('agg_fn', len)` is the parameter `aggG` / `aggK` (the aggregator in force).
+
+def flood_unit():
+    src = py2lean.Source(_repo('geohash.py'))
+    N = 'NiemeyerHasher'
+    for tag, lean in (('FlCell', 'C'), ('FlCoord', 'K'), ('FlPoint', 'S'), ('FlSLine', 'S'), ('FlSPoly', 'S'), ('FlMPoint', 'List S'),
+                      ('FlMLine', 'List S'), ('FlMPoly', 'List S'), ('FlShape', 'G'), ('FlColl', 'List G'), ('FlHasher', 'Unit'),
+                      ('FlAgg', 'A'), ('FlListG', 'List G'), ('FlListK', 'List K'), ('FlLen', 'Unit'), ('FlBase', 'Unit'),
+                      ('FlBox', 'C')):
+        py2lean.LEAN_TYPE.setdefault(tag, lean)
+    H = ('self', 'FlHasher')
+    cells, ecells = 'Set FlCell', 'Except Set FlCell'
+    insts = [
+        Inst(f'{N}._hash_point', 'hashPointS', [H, ('point', 'FlPoint')], cells),
+        Inst(f'{N}._hash_point', 'hashPointM', [H, ('point', 'FlMPoint')], cells),
+        Inst(f'{N}._hash_linestring', 'hashLineS', [H, ('linestring', 'FlSLine')], ecells),
+        Inst(f'{N}._hash_linestring', 'hashLineM', [H, ('linestring', 'FlMLine')], ecells),
+        Inst(f'{N}._hash_polygon', 'hashPolyS', [H, ('polygon', 'FlSPoly')], ecells),
+        Inst(f'{N}._hash_polygon', 'hashPolyM', [H, ('polygon', 'FlMPoly')], ecells),
+        Inst(f'{N}.hash_shape', 'hashShapePoint', [H, ('shape', 'FlPoint')], cells),
+        Inst(f'{N}.hash_shape', 'hashShapeMPoint', [H, ('shape', 'FlMPoint')], cells),
+        Inst(f'{N}.hash_shape', 'hashShapeLine', [H, ('shape', 'FlSLine')], ecells),
+        Inst(f'{N}.hash_shape', 'hashShapeMLine', [H, ('shape', 'FlMLine')], ecells),
+        Inst(f'{N}.hash_shape', 'hashShapePoly', [H, ('shape', 'FlSPoly')], ecells),
+        Inst(f'{N}.hash_shape', 'hashShapeMPoly', [H, ('shape', 'FlMPoly')], ecells),
+        Inst(f'{N}.hash_coordinates', 'hashCoordinates', [H, ('coordinates', 'List FlCoord')], 'Dict FlCell FlAgg'),
+        Inst(f'{N}.hash_collection', 'hashCollection', [H, ('collection', 'FlColl')], 'Dict FlCell FlAgg'),
+    ]
+    kinds = {'FlPoint': ('PointLike', 'PointLikeMixin', 'GeoPoint', 'SingleShape'),
+             'FlMPoint': ('PointLike', 'PointLikeMixin', 'MultiGeoPoint', 'MultiShape', 'MultiShapeBase'),
+             'FlSLine': ('LineLike', 'LineLikeMixin', 'GeoLineString', 'SingleShape'),
+             'FlMLine': ('LineLike', 'LineLikeMixin', 'MultiGeoLineString', 'MultiShape', 'MultiShapeBase'),
+             'FlSPoly': ('PolygonLike', 'PolygonLikeMixin', 'SinglePolygon', 'PolygonBase', 'SingleShape'),
+             'FlMPoly': ('PolygonLike', 'PolygonLikeMixin', 'MultiGeoPolygon', 'MultiShape', 'MultiShapeBase')}
+
+    def isinstance_hook(typ):
+        return kinds.get(typ)
+
+    def cell_of(tr, args):
+        # `_coord_to_niemeyer(coordinate, self.length, self.base)`: the cell of a coordinate on this hasher's grid (C11)
+        if [a.typ for a in args] != ['FlCoord', 'FlLen', 'FlBase']:
+            raise Unsupported(f'_coord_to_niemeyer at {[a.typ for a in args]}: only (coordinate, self.length, self.base) is the grid cell')
+        return Val(f'(cellOf {py2lean._paren(args[0].text)})', 'FlCell')
+
+    def surrounding(tr, args):
+        # `self._get_surrounding(gh, self.base)`: the neighbours of a cell (C11's `surrounding`)
+        if [a.typ for a in args] != ['FlHasher', 'FlCell', 'FlBase']:
+            raise Unsupported(f'_get_surrounding at {[a.typ for a in args[1:]]}: only (cell, self.base) is the neighbour list')
+        return Val(f'(nbrs {py2lean._paren(args[1].text)})', 'List FlCell')
+
+    def cell_box(tr, args):
+        # `niemeyer_to_geobox(cell, self.base)`: the rectangle of a cell; only ever asked whether it intersects a shape
+        if [a.typ for a in args] != ['FlCell', 'FlBase']:
+            raise Unsupported(f'niemeyer_to_geobox at {[a.typ for a in args]}: only (cell, self.base) is the rectangle of a cell')
+        return Val(args[0].text, 'FlBox')
+
+    def method(tr, recv, attr, raw_args):
+        import ast as _ast
+        if recv.typ == 'Kw':
+            # `kwargs.get('agg_fn', len)`: the aggregator in force (the caller's, or `len`)
+            ok = (attr == 'get' and len(raw_args) == 2 and isinstance(raw_args[0], _ast.Constant) and raw_args[0].value == 'agg_fn'
+                  and isinstance(raw_args[1], _ast.Name) and raw_args[1].id == 'len' and 'len' not in tr.env)
+            if not ok:
+                raise Unsupported(f'`{tr.inst.qual}`: kwargs.{attr}({", ".join(_ast.unparse(a) for a in raw_args)})')
+            coll = tr.inst.qual.endswith('hash_collection')
+            return Val('aggG' if coll else 'aggK', 'Fn FlListG FlAgg' if coll else 'Fn FlListK FlAgg')
+        return None
+
+    def local_type(qual, name):
+        if name in ('valid', 'checked', 'queue') or qual.split('.')[-1] in ('_hash_linestring', '_hash_polygon', '_hash_point'):
+            return 'Set FlCell'                      # every local set of the hashers holds cells
+        if qual.endswith('hash_coordinates'):
+            return 'DDict FlCell FlCoord'
+        if qual.endswith('hash_collection'):
+            return 'DDict FlCell FlShape'
+        return None
+
+    def fuel(qual, index):
+        return 'fuel'
+
+    attr = {('FlHasher', 'length'): ('()', 'FlLen'), ('FlHasher', 'base'): ('()', 'FlBase'),
+            ('FlPoint', 'centroid'): ('(cen {})', 'FlCoord'), ('FlSLine', 'vertices'): ('(verts {})', 'List FlCoord'),
+            ('FlMPoint', 'geoshapes'): ('{}', 'List FlPoint'), ('FlMLine', 'geoshapes'): ('{}', 'List FlSLine'),
+            ('FlMPoly', 'geoshapes'): ('{}', 'List FlSPoly'), ('FlColl', 'geoshapes'): ('{}', 'List FlShape')}
+    abstract = {('FlSPoly', 'bounding_coords', ()): ('bcoords {0}', 'List FlCoord'),
+                ('FlBox', 'intersects_shape', ('FlSPoly',)): ('touches {1} {0}', 'Bool'),
+                ('FlBox', 'intersects_shape', ('FlSLine',)): ('touches {1} {0}', 'Bool'),
+                ('FlHasher', 'hash_shape', ('FlShape',)): ('hashOf {1}', 'Set FlCell')}
+    ctx = [('nbrs', 'C → List C'), ('touches', 'S → C → Bool'), ('pick', 'List C → Option C'), ('fuel', 'Nat'),
+           ('cellOf', 'K → C'), ('cen', 'S → K'), ('verts', 'S → List K'), ('bcoords', 'S → List K'),
+           ('hashOf', 'G → List C'), ('aggK', 'List K → A'), ('aggG', 'List G → A')]
+    return Unit('SrcFlood', src, 'GV.Src.Flood', ['GeoVerif.Model.Flood', 'GeoVerif.Model.PyPrelude', 'GeoVerif.Model.FloodPrelude'],
+                insts, {'FlHasher': N}, attr_types=attr, abstract=abstract,
+                header='variable {C K S G A : Type} [DecidableEq C]',
+                intrinsics={'_coord_to_niemeyer': cell_of, f'{N}._get_surrounding': surrounding, 'niemeyer_to_geobox': cell_box},
+                hooks={'worklist': True, 'isinstance': isinstance_hook, 'method': method, 'local_type': local_type, 'fuel': fuel,
+                       'fuel_out': 'Except.error "ERR:Fuel"',
+                       'set_add': 'GV.Flood.addSet {x} {s}', 'set_pop': 'pick {s}',
+                       'set_union': 'GV.Flood.unionAll ({xs}.map {f})',
+                       'set_union_e': '(GV.FloodPy.mapE {f} {xs}).map GV.Flood.unionAll',
+                       'dict_append': 'GV.Flood.dictAppend {d} {k} {v}'},
+                ctx_params=ctx)
+
+
+# ----------------------------------------------------------------------------------------------------------
+# geostructures/_geometry.py :: coordinate_vector_cross_product, convex_hull — Andrew's monotone chain   (C10)
+#
+# a coordinate is the exact pair `GV.Pt` (floats as exact rationals, §3).  Translated from the text: the cross product,
+# the `len(...) <= 1` shortcut, both `for` loops (structural recursions over the sorted / reversed list whose state is the
+# stack), the `while len(st) >= 2 and cross(st[-2], st[-1], coord) <= 0: st.pop()` inside them (a fuelled recursion that
+# returns the stack; fuel = the stack's length, running out while the test holds is an error), `append`, `xs[:-1] + ys`.
+# A Python list is the Lean list in the same order (the model keeps its stacks top-first: the proofs bridge the two).
+# `xs[-k]` and `pop()` raise IndexError on a short list, so the instance is in `Except`; the equality with the model
+# says no exception is ever raised.
+# *Not* translated (declared intrinsic): `sorted(set(xs), key=lambda x: (x.longitude, x.latitude))` is read as the model's
+# `GV.Hull.sortedSet` (duplicate removal + stable merge sort on the key; `sorted_set_canonical` in Props/C10 shows the
+# result does not depend on the set's iteration order); any other `sorted(...)` call is rejected.
+
+def hull_unit():
+    import ast as _ast
+    src = py2lean.Source(_repo('_geometry.py'))
+    insts = [
+        Inst('coordinate_vector_cross_product', 'cross', [('o', 'Pt'), ('a', 'Pt'), ('b', 'Pt')], 'R'),
+        Inst('convex_hull', 'convexHull', [('coordinates', 'List Pt')], 'Except List Pt'),
+    ]
+
+    def sorted_hook(tr, e):
+        def is_key(lam):
+            if not (isinstance(lam, _ast.Lambda) and len(lam.args.args) == 1 and not lam.args.defaults and not lam.args.vararg
+                    and not lam.args.kwarg and not lam.args.kwonlyargs and isinstance(lam.body, _ast.Tuple) and len(lam.body.elts) == 2):
+                return False
+            x = lam.args.args[0].arg
+            return [(_ast.unparse(c.value), c.attr) if isinstance(c, _ast.Attribute) else None for c in lam.body.elts] == \
+                [(x, 'longitude'), (x, 'latitude')]
+        ok = (len(e.args) == 1 and len(e.keywords) == 1 and e.keywords[0].arg == 'key' and is_key(e.keywords[0].value)
+              and isinstance(e.args[0], _ast.Call) and isinstance(e.args[0].func, _ast.Name) and e.args[0].func.id == 'set'
+              and len(e.args[0].args) == 1 and not e.args[0].keywords)
+        xs = tr.expr(e.args[0].args[0]) if ok else None
+        if not ok or xs.typ != 'List Pt':
+            raise Unsupported(f'`{_ast.unparse(e)[:90]}`: only `sorted(set(<coordinates>), key=lambda x: (x.longitude, x.latitude))` '
+                              'is read as the model\'s sortedSet')
+        return Val(f'(GV.Hull.sortedSet {xs.text})', 'List Pt')
+
+    def loop_fuel(qual, state):
+        # each iteration of the inner loop pops one entry: the stack's length bounds the number of iterations
+        return ' + '.join('({' + n + '}).length' for n in state)
+
+    return Unit('SrcHull', src, 'GV.Src.Hull', ['GeoVerif.Model.Hull', 'GeoVerif.Model.PyList'], insts, {},
+                attr_types={('Pt', 'longitude'): ('{}.1', 'R'), ('Pt', 'latitude'): ('{}.2', 'R')},
+                hooks={'isinstance': lambda typ: None, 'sorted': sorted_hook, 'loop_fuel': loop_fuel, 'float_as_int': True,
+                       'keywords': lambda tr, e: getattr(e.func, 'id', None) == 'sorted',
+                       'ann_type': lambda ann: {'List[Coordinate]': 'List Pt', 'list[Coordinate]': 'List Pt'}.get(ann),
+                       'local_type': lambda qual, name: 'List Pt' if qual == 'convex_hull' else None})
+
+
+# geostructures/structures.py :: GeoPolygon.__init__ — what the hull wrappers' `GeoPolygon(ring)` does to the ring   (C10)
+#
+# the instance with every optional parameter at its default (`holes=None`, `_is_hole=False`); the result is the stored
+# `self.outline`.  `outline[0]` / `outline[-1]` raise IndexError on an empty ring.  `is_counter_clockwise` is the model's
+# `isCCW` and `super().__init__` (PolygonBase: stores holes/dt/properties, cannot raise without holes) are pinned; the
+# two logging calls have no effect on the value.
+
+HULL_PINS = {
+    '_geometry.py::is_counter_clockwise': '029b036eea7a5394',
+    'structures.py::PolygonBase.__init__': 'e3b6c67c55a7b8b4',
+}
+
+
+def hullpoly_unit():
+    import ast as _ast
+    src = py2lean.Source(_repo('structures.py'))
+    insts = [Inst('GeoPolygon.__init__', 'init', [('self', 'None'), ('outline', 'List Pt')], 'Except List Pt',
+                  doc='holes, dt, properties, _is_hole at their defaults')]
+
+    def init_hook(tr, fields):
+        if set(fields) != {'outline'} or fields['outline'].typ != 'List Pt':
+            raise Unsupported(f'GeoPolygon.__init__ stores fields {sorted(fields)}')
+        return fields['outline'].text
+
+    def expr_stmt(tr, call):
+        if tr.is_super_init(_ast.Call(func=call.func, args=[], keywords=[])) and isinstance(call, _ast.Call) and not call.args \
+                and all(k.arg in ('holes', 'dt', 'properties') and isinstance(k.value, _ast.Name) and k.value.id == k.arg
+                        for k in call.keywords):
+            return True               # PolygonBase.__init__(holes=None, dt=None, properties=None): pinned
+        return isinstance(call, _ast.Call) and _ast.unparse(call.func) in ('LOGGER.warning', 'warn_once')
+
+    def ccw(tr, args):
+        if [a.typ for a in args] != ['List Pt']:
+            raise Unsupported('is_counter_clockwise(' + ', '.join(a.typ for a in args) + ')')
+        return Val(f'(GV.isCCW {args[0].text})', 'Bool')
+
+    return Unit('SrcHullPoly', src, 'GV.Src.HullPoly', ['GeoVerif.Model.Plane', 'GeoVerif.Model.PyPrelude', 'GeoVerif.Model.PyList'],
+                insts, {}, pins=dict(HULL_PINS), intrinsics={'is_counter_clockwise': ccw},
+                hooks={'isinstance': lambda typ: None, 'init': init_hook, 'expr_stmt': expr_stmt,
+                       'keywords': lambda tr, e: tr.is_super_init(_ast.Call(func=e.func, args=[], keywords=[]))})
+
+
+# geostructures/multistructures.py :: MultiGeoPoint / MultiGeoLineString / MultiGeoPolygon .convex_hull   (C10)
+#
+# a multi-shape is the list of its members (`μ`); what a member contributes is abstract: `cen m` = `m.centroid`,
+# `verts m` = `m.vertices`, `bc m` = `m.bounding_coords(**kwargs)`.  `convex_hull(...)` is SrcHull's translated function,
+# `GeoPolygon(...)` SrcHullPoly's translated constructor.
+
+def hullmulti_unit():
+    src = py2lean.Source(_repo('multistructures.py'))
+    insts = [
+        Inst('MultiGeoPoint.convex_hull', 'multiPointHull', [('self', 'HMulti')], 'Except List Pt'),
+        Inst('MultiGeoLineString.convex_hull', 'multiLineHull', [('self', 'HMulti')], 'Except List Pt'),
+        Inst('MultiGeoPolygon.convex_hull', 'multiPolyHull', [('self', 'HMulti')], 'Except List Pt'),
+    ]
+    py2lean.LEAN_TYPE.setdefault('HMulti', 'List μ')
+
+    def hull(tr, args):
+        if [a.typ for a in args] != ['List Pt']:
+            raise Unsupported('convex_hull(' + ', '.join(a.typ for a in args) + ')')
+        v = Val(f'(GV.Src.Hull.convexHull {args[0].text})', 'List Pt')
+        v.raises = True
+        return v
+
+    def poly(tr, args):
+        if [a.typ for a in args] != ['List Pt']:
+            raise Unsupported('GeoPolygon(' + ', '.join(a.typ for a in args) + ')')
+        v = Val(f'(GV.Src.HullPoly.init {args[0].text})', 'List Pt')
+        v.raises = True
+        return v
+
+    return Unit('SrcHullMulti', src, 'GV.Src.HullMulti', ['GeoVerif.Gen.SrcHull', 'GeoVerif.Gen.SrcHullPoly'], insts, {},
+                header='variable {μ : Type}',
+                attr_types={('HMulti', 'geoshapes'): ('{}', 'List μ'), ('μ', 'centroid'): ('(cen {})', 'Pt'),
+                            ('μ', 'vertices'): ('(verts {})', 'List Pt')},
+                abstract={('μ', 'bounding_coords', ()): ('bc {0}', 'List Pt')},
+                intrinsics={'convex_hull': hull, 'GeoPolygon': poly},
+                hooks={'isinstance': lambda typ: None},
+                ctx_params=[('cen', 'μ → GV.Pt'), ('verts', 'μ → List GV.Pt'), ('bc', 'μ → List GV.Pt')])
+
+
+# ----------------------------------------------------------------------------------------------------------
+# geostructures/structures.py, _base.py, collections.py :: `bounds` and `circumscribing_rectangle`   (C09)
+#
+# the receiver is its defining data: a box its two corners, a polygon / linestring its vertex list, a point its
+# coordinate (`GV.Pt = Rat × Rat`, floats as exact rationals); a member of a multi-shape / collection, and the receiver of
+# the mixins' `circumscribing_rectangle`, is given by its `bounds`.  `y.to_float()` is a tuple that starts with
+# (longitude, latitude) (pinned) of which only `[:2]`, `[0]`, `[1]` may be read; `Coordinate(lon, lat)` is the model's
+# normalising constructor (C08's subject, tied to the source by SrcCoord); `GeoBox(a, b, dt=self.dt)` is its two corners.
+
+PINS['coordinates.py::Coordinate.to_float'] = 'b613877e945e9836'       # SrcBounds: a tuple that starts with (longitude, latitude)
+
+
+def bounds_unit():
+    src = py2lean.Sources([_repo('structures.py'), _repo('_base.py'), _repo('collections.py')])
+    insts = [
+        Inst('GeoBox.bounds', 'boxBounds', [('self', 'BdBox')], 'Tuple4 R'),
+        Inst('GeoPoint.bounds', 'pointBounds', [('self', 'BdPoint')], 'Tuple4 R'),
+        Inst('GeoPolygon.bounds', 'polygonBounds', [('self', 'BdPoly')], 'Except Tuple4 R'),
+        Inst('GeoLineString.bounds', 'lineBounds', [('self', 'BdLine')], 'Except Tuple4 R'),
+        Inst('MultiShapeBase.bounds', 'multiBounds', [('self', 'BdMulti')], 'Except Tuple4 R'),
+        Inst('CollectionBase.bounds', 'collBounds', [('self', 'BdColl')], 'Except Tuple4 R'),
+        Inst('PolygonLikeMixin.circumscribing_rectangle', 'polyLikeRect', [('self', 'BdShape')], 'BdBox'),
+        Inst('LineLikeMixin.circumscribing_rectangle', 'lineLikeRect', [('self', 'BdShape')], 'BdBox'),
+        Inst('GeoLineString.circumscribing_rectangle', 'lineRect', [('self', 'BdLine')], 'Except BdBox'),
+        Inst('GeoBox.circumscribing_rectangle', 'boxRect', [('self', 'BdBox')], 'BdBox'),
+    ]
+    for tag, lean in (('BdBox', 'GV.Pt × GV.Pt'), ('BdPoint', 'GV.Pt'), ('BdPoly', 'List GV.Pt'), ('BdLine', 'List GV.Pt'),
+                      ('BdShape', 'GV.Bounds.BBox'), ('BdMulti', 'List GV.Bounds.BBox'), ('BdColl', 'List GV.Bounds.BBox'),
+                      ('CoordTuple', 'GV.Pt')):
+        py2lean.LEAN_TYPE.setdefault(tag, lean)
+    attr = {('Pt', 'longitude'): ('{}.1', 'R'), ('Pt', 'latitude'): ('{}.2', 'R'),
+            ('BdBox', 'nw_bound'): ('{}.1', 'Pt'), ('BdBox', 'se_bound'): ('{}.2', 'Pt'),
+            ('BdPoint', 'coordinate'): ('{}', 'Pt'), ('BdPoly', 'outline'): ('{}', 'List Pt'),
+            ('BdLine', 'vertices'): ('{}', 'List Pt'), ('BdShape', 'bounds'): ('{}', 'Tuple4 R'),
+            ('BdMulti', 'geoshapes'): ('{}', 'List BdShape'), ('BdColl', 'geoshapes'): ('{}', 'List BdShape')}
+
+    def method(tr, recv, attr_name, args):
+        if recv.typ == 'Pt' and attr_name == 'to_float' and not args:
+            return Val(recv.text, 'CoordTuple')
+        return None
+
+    def subscript(tr, v, sl):
+        A = py2lean.ast
+        if v.typ != 'CoordTuple':
+            return None
+        if isinstance(sl, A.Slice) and sl.lower is None and sl.step is None and isinstance(sl.upper, A.Constant) and sl.upper.value == 2 \
+                and not isinstance(sl.upper.value, bool):
+            return Val(v.text, 'Pair R')
+        if isinstance(sl, A.Constant) and sl.value in (0, 1) and not isinstance(sl.value, bool):
+            return Val(f'{v.text}.{sl.value + 1}', 'R')
+        raise Unsupported(f'subscript `[{A.unparse(sl)}]` of `to_float()`')
+
+    def coordinate(tr, args):
+        if [a.typ for a in args] != ['R', 'R']:
+            raise Unsupported('Coordinate(' + ', '.join(a.typ for a in args) + ')')
+        return Val(f'(GV.normalize true {args[0].text} {args[1].text})', 'Pt')
+
+    def geobox(tr, args):
+        if [a.typ for a in args] != ['Pt', 'Pt']:
+            raise Unsupported('GeoBox(' + ', '.join(a.typ for a in args) + ')')
+        return Val(f'({args[0].text}, {args[1].text})', 'BdBox')
+
+    def kw(tr, e):
+        f = e.func
+        name = f.id if isinstance(f, py2lean.ast.Name) else None
+        return name == 'GeoBox' and [k.arg for k in e.keywords] == ['dt'] and py2lean.ast.unparse(e.keywords[0].value) == 'self.dt'
+
+    return Unit('SrcBounds', src, 'GV.Src.Bounds', ['GeoVerif.Model.Bounds', 'GeoVerif.Model.PyBounds'], insts,
+                {'BdBox': 'GeoBox', 'BdPoint': 'GeoPoint', 'BdPoly': 'GeoPolygon', 'BdLine': 'GeoLineString'},
+                attr_types=attr, intrinsics={'Coordinate': coordinate, 'GeoBox': geobox},
+                pins={'coordinates.py::Coordinate.to_float': PINS['coordinates.py::Coordinate.to_float']},
+                hooks={'isinstance': lambda typ: None, 'method': method, 'subscript': subscript, 'keywords': kw})
+
+
+# ----------------------------------------------------------------------------------------------------------
+# geostructures/_base.py :: BaseShapeProtocol — the updating methods and the observations they feed   (C16)
+#
+# a shape is a *reference* (`ORef`, a Nat) into the activation `fr : GV.OS.Act G H W` (Model/ObjAct.lean: the heap of
+# Model/ObjState.lean + the shape records in scope, the receiver at reference 0) that every definition receives;
+# `x.copy()` (abstract in the protocol, pinned as such) is the model's `copy` bound to a new reference; the stores
+# `x.dt = v`, `x._properties[k] = v` rebind the activation; an updating method returns (activation, reference).
+# `self.area` is the memoised area as a function `areaOf` of the inputs it was computed from, `total_seconds` is `secs`.
+
+def mut_unit():
+    src = py2lean.Source(_repo('_base.py'))
+    B = 'BaseShapeProtocol'
+    S, U = ('self', 'ORef'), 'Except Upd'
+    IP = ('inplace', 'Bool')
+    insts = [
+        Inst(f'{B}.start', 'startDt', [S], 'Except Dt'),
+        Inst(f'{B}.end', 'endDt', [S], 'Except Dt'),
+        Inst(f'{B}.properties', 'properties', [S], 'Except RDict'),
+        Inst('PolygonLikeMixin.volume', 'volume', [S], 'N'),
+        Inst(f'{B}.set_dt', 'setDtNone', [S, ('dt', 'None'), IP], U),
+        Inst(f'{B}.set_dt', 'setDtTI', [S, ('dt', 'TI'), IP], U),
+        Inst(f'{B}.set_dt', 'setDtDt', [S, ('dt', 'Dt'), IP], U),
+        Inst(f'{B}.buffer_dt', 'bufferDt', [S, ('buffer', 'Td'), IP], U),
+        Inst(f'{B}.strip_dt', 'stripDt', [S, IP], U),
+        Inst(f'{B}.set_property', 'setProperty', [S, ('key', 'Str'), ('value', 'PArg'), IP], U),
+        # `inplace` left at its default
+        Inst(f'{B}.set_dt', 'setDtNoneDefault', [S, ('dt', 'None')], U, doc='`inplace` left at its default'),
+        Inst(f'{B}.set_dt', 'setDtTIDefault', [S, ('dt', 'TI')], U, doc='`inplace` left at its default'),
+        Inst(f'{B}.set_dt', 'setDtDtDefault', [S, ('dt', 'Dt')], U, doc='`inplace` left at its default'),
+        Inst(f'{B}.buffer_dt', 'bufferDtDefault', [S, ('buffer', 'Td')], U, doc='`inplace` left at its default'),
+        Inst(f'{B}.strip_dt', 'stripDtDefault', [S], U, doc='`inplace` left at its default'),
+        Inst(f'{B}.set_property', 'setPropertyDefault', [S, ('key', 'Str'), ('value', 'PArg')], U,
+             doc='`inplace` left at its default'),
+    ]
+    # an observation must be recomputed on every read (a memoised one goes stale under the updates: that is C16), an
+    # updating method must be the plain function
+    for i in insts:
+        want = ['property'] if i.value_type != 'Upd' else []
+        if src.decorators(i.qual) != want:
+            raise Unsupported(f'`{i.qual}` is decorated {src.decorators(i.qual)}, the unit reads it as {want or "a plain method"}')
+    py2lean.LEAN_TYPE.setdefault('Str', 'String')
+    py2lean.LEAN_TYPE.setdefault('N', 'α')
+    py2lean.LEAN_TYPE.setdefault('ORef', 'Nat')
+    py2lean.LEAN_TYPE.setdefault('DictRef', 'Nat')
+    py2lean.LEAN_TYPE.setdefault('Upd', 'GV.OS.Act G H W × Nat')
+    py2lean.LEAN_TYPE.setdefault('PArg', 'GV.OS.PArg')
+    py2lean.LEAN_TYPE.setdefault('RDict', 'List (String × GV.OS.RVal)')
+
+    def isinstance_hook(typ):
+        return {'Dt': {'datetime'}, 'Td': {'timedelta'}, 'TI': {'TimeInterval'}, 'None': set(),
+                'ORef': {'BaseShapeProtocol', 'BaseShape', 'GeoShape'}}.get(typ)
+
+    def zulu(tr, args):
+        if args[-1].typ != 'Dt':
+            raise Unsupported(f'default_to_zulu applied to {args[-1].typ}')
+        return Val(args[-1].text, 'Dt')
+
+    def method(tr, recv, attr, args):
+        if recv.typ == 'ORef' and attr == 'copy' and not args:
+            return tr.effect(f'GV.OS.Act.copyOf {tr.frame()} {recv.text}', 'ORef')
+        if recv.typ == 'DictRef' and attr == 'copy' and not args and recv.path and recv.path.endswith('._properties'):
+            # `x._properties.copy()`: a dict *value*; the only way this unit reads the property dict
+            return Val(f'(GV.OS.Act.propsCopy {tr.frame()} {recv.text})', 'RDict')
+        return None
+
+    frame = {
+        'name': 'fr', 'result': 'Upd', 'ref': 'ORef',
+        'getattr': {('ORef', 'dt'): ('(GV.OS.Act.dt {fr} {0})', 'Opt TI'),
+                    ('ORef', '_properties'): ('{0}', 'DictRef'),
+                    ('ORef', 'area'): ('(areaOf (GV.OS.Act.areaStamp {fr} {0}))', 'N')},
+        'setattr': {('ORef', 'dt', 'None'): 'GV.OS.Act.setDt {fr} {0} none',
+                    ('ORef', 'dt', 'TI'): 'GV.OS.Act.setDt {fr} {0} (some {1})',
+                    ('ORef', 'dt', 'Opt TI'): 'GV.OS.Act.setDt {fr} {0} {1}'},
+        'setitem': {('ORef', '_properties', 'Str', 'PArg'): 'GV.OS.Act.setProp {fr} {0} {1} {2}'},
+        'setlocal': {('RDict', 'Str', 'Dt'): 'GV.OS.rdictPut {0} {1} (GV.OS.RVal.atom {2})'},
+    }
+    return Unit('SrcMut', src, 'GV.Src.Mut', ['GeoVerif.Gen.SrcTime', 'GeoVerif.Model.ObjAct'], insts,
+                {'ORef': B, 'TI': 'TimeInterval'},
+                header='open GV Num\nvariable {G H W : Type} {α : Type} [Num α]',
+                pins={'utils/functions.py::default_to_zulu': PINS['utils/functions.py::default_to_zulu'],
+                      f'{B}.copy': PINS['_base.py::BaseShapeProtocol.copy']},
+                attr_types={('TI', 'start'): ('{}.start', 'Dt'), ('TI', 'end'): ('{}.stop', 'Dt')},
+                intrinsics={'default_to_zulu': zulu},
+                abstract={('Td', 'total_seconds', ()): ('secs {0}', 'N')},
+                hooks={'isinstance': isinstance_hook, 'always_truthy': ('TI', 'Dt'), 'method': method, 'frame': frame,
+                       'str_lit': True, 'float_as_int': True},
+                ctx_params=[('fr', 'GV.OS.Act G H W'), ('areaOf', 'GV.OS.Stamp H W → α'), ('secs', 'Int → α')],
+                externals=_time_externals())
+
+
+# ----------------------------------------------------------------------------------------------------------
+# geostructures/geohash.py :: the Niemeyer codec   (C11)
+#
+# a geohash is the list of its characters (`List Char`; a one-character string is a `Char`), `_NIEMEYER_CONFIG` is the
+# generated table `Gen/Geohash.lean` (a dict as its association list, a config as the record of its keys), ints that can
+# not be negative (literals, table entries, `len`, `ord`) are `Nat` — widened where they meet an `int` —, floats are exact
+# rationals.  The two-element interval lists are pairs; the `while` loop is fuelled with `length · len(bits)`.
+# `coordinate.to_float()` is a tuple that starts with `(longitude, latitude)` (then Z and M when present; pinned, not
+# translated), so `to_float()[:2]` is the stored pair for every coordinate, with or without Z and M; unpacking the whole
+# tuple into two names is *not* in the subset (it raises for a coordinate that carries Z or M).
+# `Coordinate(lon, lat)` is the model's normalising constructor (tied to the source by SrcCoord / C08Src); `GeoBox(nw, se)`
+# is the pair of its corners (`dt=` and `properties=` do not enter the geometry).
+
+PINS['coordinates.py::Coordinate.to_float'] = 'b613877e945e9836'     # SrcGeohash: a tuple that starts with `(longitude, latitude)`
+
+
+def geohash_unit():
+    src = py2lean.Source(_repo('geohash.py'))
+    for tag, lean in (('Nat', 'Nat'), ('Ch', 'Char'), ('NCfg', 'GV.Geohash.Gen.NiemeyerCfg'), ('GhBox', 'GV.Geohash.Box'),
+                      ('PtTuple', 'GV.Pt')):
+        py2lean.LEAN_TYPE.setdefault(tag, lean)
+    GH = 'List Ch'
+    insts = [
+        Inst('_decode_niemeyer', 'decodeNiemeyer', [('geohash', GH), ('base', 'Nat')], 'Except Tuple4 R'),
+        Inst('_coord_to_niemeyer', 'coordToNiemeyer', [('coordinate', 'Pt'), ('length', 'Int'), ('base', 'Nat')], 'Except ' + GH),
+        Inst('_get_niemeyer_subhashes', 'subhashes', [('geohash', GH), ('base', 'Nat')], 'Except Set ' + GH),
+        Inst('niemeyer_to_geobox', 'niemeyerToGeobox', [('geohash', GH), ('base', 'Nat')], 'Except GhBox',
+             doc='`dt`, `properties` left at their defaults'),
+        Inst('NiemeyerHasher._get_surrounding', 'getSurrounding', [('geohash', GH), ('base', 'Nat')], 'Except List ' + GH),
+    ]
+    items = {('NCfg', 'bits'): ('{}.bits', 'List Nat'), ('NCfg', 'charset'): ('{}.charset', GH),
+             ('NCfg', 'inverse'): ('{}.inverse', 'Dict Nat Nat'),
+             ('NCfg', 'min_x'): ('{}.minX', 'R'), ('NCfg', 'max_x'): ('{}.maxX', 'R'),
+             ('NCfg', 'min_y'): ('{}.minY', 'R'), ('NCfg', 'max_y'): ('{}.maxY', 'R')}
+
+    def fuel(qual, index):
+        # one iteration per bit: `length` characters of `len(bits)` bits each (proved sufficient in Props/C11Src)
+        if qual == '_coord_to_niemeyer' and index == 1:
+            return '((Int.toNat {length}) * (match GV.Geohash.cfgOf {base} with | some c => c.bits.length | none => 0))'
+        return None
+
+    def real(v):
+        return v.text if v.typ == 'R' else f'({v.text} : Rat)' if v.typ in ('Int', 'Nat') else None
+
+    def coordinate(tr, args):
+        xs = [real(a) for a in args]
+        if len(xs) != 2 or None in xs:
+            raise Unsupported('Coordinate(' + ', '.join(a.typ for a in args) + ')')
+        return Val(f'(GV.normalize true {xs[0]} {xs[1]})', 'Pt')
+
+    def geobox(tr, args):
+        if [a.typ for a in args] != ['Pt', 'Pt']:
+            raise Unsupported('GeoBox(' + ', '.join(a.typ for a in args) + ')')
+        return Val(f'(GV.Geohash.Box.mk {args[0].text} {args[1].text})', 'GhBox')
+
+    def subscript(tr, v, sl):
+        # `coordinate.to_float()[:2]`: the first two ordinates of the pinned tuple
+        if v.typ == 'PtTuple':
+            zero = sl.lower is None or (isinstance(sl.lower, py2lean.ast.Constant) and sl.lower.value == 0
+                                        and not isinstance(sl.lower.value, bool)) if isinstance(sl, py2lean.ast.Slice) else False
+            if isinstance(sl, py2lean.ast.Slice) and zero and sl.step is None \
+                    and isinstance(sl.upper, py2lean.ast.Constant) and sl.upper.value == 2 and not isinstance(sl.upper.value, bool):
+                return Val(v.text, 'Prod R R')
+            raise Unsupported(f'`{py2lean.ast.unparse(sl)}` of the tuple `to_float()` returns')
+        return None
+
+    def kw(tr, e):
+        f = e.func
+        return isinstance(f, py2lean.ast.Name) and f.id == 'GeoBox' and {k.arg for k in e.keywords} <= {'dt', 'properties'}
+
+    return Unit('SrcGeohash', src, 'GV.Src.Geohash', ['GeoVerif.Model.Geohash', 'GeoVerif.Model.PyPrelude'], insts,
+                {'NH': 'NiemeyerHasher'},
+                pins={k: PINS[k] for k in ('coordinates.py::Coordinate.to_float',)},
+                abstract={('Pt', 'to_float', ()): ('{}', 'PtTuple')},
+                intrinsics={'Coordinate': coordinate, 'GeoBox': geobox},
+                hooks={'isinstance': lambda typ: None, 'fuel': fuel, 'items': items, 'nat_literals': True, 'float_as_int': True,
+                       'str_as_chars': True, 'cells': True, 'body_locals': True, 'aug_assign': True, 'nested_fold': True,
+                       'subscript': subscript, 'set_of': 'GV.Geohash.toSet', 'keywords': kw,
+                       'constants': {'_NIEMEYER_CONFIG': ('GV.Geohash.Gen.niemeyerConfigs', 'Dict Nat NCfg')}})
+
+
+# coordinates.py / structures.py / _base.py / multistructures.py :: `__eq__` and `__hash__` of every kind   (C15)
+#
+# a coordinate is the model's record `GV.Obj.Coord`, a single shape the record view of its class (`Model/ObjRec.lean`:
+# the fields under the names the class uses), a multi-shape the model's `GV.Obj.Multi`; `isinstance(other, X)` is decided
+# per instance (`other` of the same class / anything else).  `==` on `Optional`, lists, tuples and sets, the membership
+# relation of a set (hash, then `==`) and the *key* handed to `hash()` are generated from the static types (py2lean
+# `eq_fn` / `mem_fn` / `key_of`).  Abstract: `heq` (`hole == hole'`: a dynamic dispatch on the class of the hole — closed in
+# Props/C15Src by `srcHoleEq`), `bc` (`hole.bounding_coords()`), `wedge` (`GeoRing.to_polygon().centroid`), and for the
+# members of a multi-shape `meq` / `mheq` / `mkey` (`==`, hash equality and hash key of two members: the dispatch over the
+# single-shape instances of this unit).
+
+def eq_unit():
+    src = py2lean.Sources([_repo('structures.py'), _repo('coordinates.py'), _repo('_base.py'), _repo('multistructures.py')])
+    types = {'CoordV': 'GV.Obj.Coord', 'PointV': 'GV.Obj.PointR', 'LineV': 'GV.Obj.LineR', 'BoxV': 'GV.Obj.BoxR',
+             'CircleV': 'GV.Obj.CircleR', 'EllipseV': 'GV.Obj.EllipseR', 'RingV': 'GV.Obj.RingR', 'PolyV': 'GV.Obj.PolyR',
+             'HoleV': 'GV.Obj.Hole', 'MultiV': 'GV.Obj.Multi', 'MPointV': 'GV.Obj.Multi', 'MemberV': 'GV.Obj.Shape',
+             'OtherV': 'Unit', 'MKindV': 'GV.Obj.MKind', 'SKeyV': 'GV.Obj.SKey', 'WedgeV': 'GV.Obj.Coord'}
+    for k, v in types.items():
+        py2lean.LEAN_TYPE.setdefault(k, v)
+    prod = py2lean.mk_prod
+    CK = prod(['R', 'R', 'Opt R'])            # (longitude, latitude, z)
+    DK = 'Opt Pair Dt'                        # the key of `self.dt`
+    single = [('Coordinate', 'coord', 'CoordV', CK),
+              ('GeoPoint', 'point', 'PointV', prod([CK, DK])),
+              ('GeoBox', 'box', 'BoxV', prod([CK, CK, DK])),
+              ('GeoCircle', 'circle', 'CircleV', prod([CK, 'R', DK])),
+              ('GeoEllipse', 'ellipse', 'EllipseV', prod([CK, 'R', 'R', 'R', DK])),
+              ('GeoRing', 'ring', 'RingV', prod([CK, 'R', 'R', 'R', 'R', DK])),
+              ('GeoLineString', 'line', 'LineV', prod(['List ' + CK, DK])),
+              ('GeoPolygon', 'poly', 'PolyV', prod(['List ' + CK, DK]))]
+    insts = []
+    for cls, nm, t, key in single:
+        if cls in ('GeoCircle', 'GeoEllipse', 'GeoRing'):
+            insts.append(Inst(f'{cls}.centroid', nm + 'Centroid', [('self', t)], 'CoordV'))
+        insts.append(Inst(f'{cls}.__eq__', nm + 'Eq', [('self', t), ('other', t)], 'Except Bool' if cls == 'GeoPolygon' else 'Bool'))
+        insts.append(Inst(f'{cls}.__eq__', nm + 'EqOther', [('self', t), ('other', 'OtherV')], 'Bool',
+                          doc='`other` is not an instance of the class'))
+        insts.append(Inst(f'{cls}.__hash__', nm + 'Hash', [('self', t)], key, doc='the key of the value handed to hash()'))
+    insts += [
+        Inst('MultiShapeBase.__eq__', 'multiEq', [('self', 'MultiV'), ('other', 'MultiV')], 'Opt Bool', doc='`none` is NotImplemented'),
+        Inst('MultiShapeBase.__eq__', 'multiEqOther', [('self', 'MultiV'), ('other', 'OtherV')], 'Opt Bool',
+             doc='`other` is not a multi-shape; `none` is NotImplemented'),
+        Inst('MultiShapeBase.__hash__', 'multiHash', [('self', 'MultiV')], prod(['List SKeyV', DK]), doc='the key of the value handed to hash()'),
+        Inst('MultiGeoPoint.__hash__', 'mpointHash', [('self', 'MPointV')], 'List SKeyV', doc='the key of the value handed to hash()'),
+    ]
+    # what the unit assumes about the class layout: the multi-shape classes take `__eq__` from MultiShapeBase, and only
+    # MultiGeoPoint has a `__hash__` of its own
+    for q in ('MultiGeoPoint.__eq__', 'MultiGeoLineString.__eq__', 'MultiGeoPolygon.__eq__', 'MultiGeoLineString.__hash__',
+              'MultiGeoPolygon.__hash__', 'PolygonBase.__eq__', 'PolygonBase.__hash__', 'SingleShapeBase.__eq__',
+              'SingleShapeBase.__hash__', 'BaseShape.__eq__', 'BaseShape.__hash__'):
+        if q in src.defs:
+            raise Unsupported(f'`{q}` is defined: the unit assumes it is inherited')
+
+    def isinstance_hook(typ):
+        own = {'CoordV': 'Coordinate', 'PointV': 'GeoPoint', 'LineV': 'GeoLineString', 'BoxV': 'GeoBox', 'CircleV': 'GeoCircle',
+               'EllipseV': 'GeoEllipse', 'RingV': 'GeoRing', 'PolyV': 'GeoPolygon'}
+        if typ in own:
+            return {own[typ]}
+        return {'MultiV': {'MultiShapeBase'}, 'MPointV': {'MultiShapeBase', 'MultiGeoPoint'}, 'OtherV': set()}.get(typ)
+
+    dt = ('{}.dt', 'Opt TI')
+    holes = ('{}.holes', 'List HoleV')
+    attr = {('CoordV', 'latitude'): ('{}.lat', 'R'), ('CoordV', 'longitude'): ('{}.lon', 'R'), ('CoordV', 'z'): ('{}.z', 'Opt R'),
+            ('PointV', 'coordinate'): ('{}.coordinate', 'CoordV'), ('PointV', 'dt'): dt,
+            ('LineV', 'vertices'): ('{}.vertices', 'List CoordV'), ('LineV', 'dt'): dt,
+            ('BoxV', 'nw_bound'): ('{}.nw', 'CoordV'), ('BoxV', 'se_bound'): ('{}.se', 'CoordV'), ('BoxV', 'holes'): holes, ('BoxV', 'dt'): dt,
+            ('CircleV', 'center'): ('{}.center', 'CoordV'), ('CircleV', 'radius'): ('{}.radius', 'R'),
+            ('CircleV', 'holes'): holes, ('CircleV', 'dt'): dt,
+            ('EllipseV', 'center'): ('{}.center', 'CoordV'), ('EllipseV', 'semi_major'): ('{}.major', 'R'),
+            ('EllipseV', 'semi_minor'): ('{}.minor', 'R'), ('EllipseV', 'rotation'): ('{}.rotation', 'R'),
+            ('EllipseV', 'holes'): holes, ('EllipseV', 'dt'): dt,
+            ('RingV', 'center'): ('{}.center', 'CoordV'), ('RingV', 'inner_radius'): ('{}.inner', 'R'),
+            ('RingV', 'outer_radius'): ('{}.outer', 'R'), ('RingV', 'angle_min'): ('{}.amin', 'R'),
+            ('RingV', 'angle_max'): ('{}.amax', 'R'), ('RingV', 'holes'): holes, ('RingV', 'dt'): dt,
+            ('PolyV', 'outline'): ('{}.outline', 'List CoordV'), ('PolyV', 'holes'): holes, ('PolyV', 'dt'): dt,
+            ('MultiV', 'geoshapes'): ('{}.members', 'List MemberV'), ('MultiV', 'dt'): dt,
+            ('MPointV', 'geoshapes'): ('{}.members', 'List MemberV'), ('MPointV', 'dt'): dt,
+            ('WedgeV', 'centroid'): ('{}', 'CoordV')}
+    abstract = {('HoleV', 'bounding_coords', ()): ('bc {0}', 'List CoordV'),
+                ('RingV', 'to_polygon', ()): ('wedge {0}', 'WedgeV')}
+    classes = {t: cls for cls, _nm, t, _k in single}
+    classes.update({'MultiV': 'MultiShapeBase', 'MPointV': 'MultiGeoPoint', 'TI': 'TimeInterval'})
+    return Unit('SrcEq', src, 'GV.Src.Eq', ['GeoVerif.Gen.SrcTime', 'GeoVerif.Model.ObjRec', 'GeoVerif.Model.PyPrelude'], insts,
+                classes, attr_types=attr, abstract=abstract,
+                header='-- source files: ' + ', '.join(os.path.basename(q) for q in src.paths),
+                hooks={'isinstance': isinstance_hook, 'always_truthy': ('TI', 'Dt'), 'value_semantics': True, 'hash_keys': True, 'operand_boolop': True, 'prune_loop_params': True,
+                       'eq_abstract': {'HoleV': 'heq', 'MemberV': 'meq'}, 'hasheq_abstract': {'MemberV': 'mheq'},
+                       'key_abstract': {'MemberV': ('mkey', 'SKeyV')},
+                       'constants': {'NotImplemented': ('()', 'None')},
+                       'type_of': {'MultiV': ('{}.kind', 'MKindV')}, 'identity_types': ('MKindV',)},
+                ctx_params=[('heq', 'GV.Obj.Hole → GV.Obj.Hole → Bool'), ('bc', 'GV.Obj.Hole → List GV.Obj.Coord'),
+                            ('wedge', 'GV.Obj.RingR → GV.Obj.Coord'), ('meq', 'GV.Obj.Shape → GV.Obj.Shape → Bool'),
+                            ('mheq', 'GV.Obj.Shape → GV.Obj.Shape → Bool'), ('mkey', 'GV.Obj.Shape → GV.Obj.SKey')],
+                externals=_time_externals())
+
+
+# ----------------------------------------------------------------------------------------------------------
+# geostructures/_geometry.py :: do_bounds_overlap, ensure_edge_bounds, find_line_intersection, do_edges_intersect   (C02)
+#
+# a coordinate is the exact pair `GV.Pt` (lon, lat) — no z / m, so `to_float()` is that pair (pinned); floats are exact
+# rationals, so `round_half_up(x, 10)` is `x` (§3: the model drops the rounding; only the literal precision 10 is read so);
+# `Coordinate(x, y)` is the pair handed to the constructor (normalisation is C08's subject; with `_bounded=False` it is
+# exactly that pair).  The nested functions (`det`, `get_line_bounds`, `_create_events`) are lifted to definitions of their
+# own, the local class `_Event` to a structure with its `__lt__` / `__eq__` / `__hash__`; `events.sort()` is the stable
+# merge sort that asks only `b < a`; the active `set` is the list of its elements without `__eq__`-duplicates
+# (`GV.Py.setAdd` / `setDiscard`); the group labels 'a' / 'b' are read as `false` / `true` (the model's encoding).
+
+PINS.setdefault('coordinates.py::Coordinate.to_float', 'b613877e945e9836')     # SrcSweep: (longitude, latitude) of a coordinate without z / m
+
+
+def sweep_unit():
+    src = py2lean.Source(_repo('_geometry.py'))
+    SEG = 'Prod Pt Pt'
+    insts = [
+        Inst('do_bounds_overlap', 'doBoundsOverlap', [('bounds1', 'Prod R R'), ('bounds2', 'Prod R R')], 'Bool'),
+        Inst('ensure_edge_bounds', 'ensureEdgeBounds', [('coord1', 'Pt'), ('coord2', 'Pt')], SEG),
+        Inst('find_line_intersection', 'findLineIntersection', [('line1', SEG), ('line2', SEG)], 'Opt Prod Pt Bool'),
+        Inst('do_edges_intersect', 'doEdgesIntersect', [('edges_a', 'List ' + SEG), ('edges_b', 'List ' + SEG)], 'Bool'),
+    ]
+    A = py2lean.ast
+
+    def rnd(tr, args):
+        if [a.typ for a in args] != ['R', 'Int'] or args[1].text != '(10 : Int)':
+            raise Unsupported('round_half_up(' + ', '.join(f'{a.text}: {a.typ}' for a in args)[:80] + '): only `round_half_up(<float>, 10)` is '
+                              'read as the identity on exact rationals')
+        return Val(args[0].text, 'R')
+
+    def coordinate(tr, args):
+        if [a.typ for a in args] != ['R', 'R']:
+            raise Unsupported('Coordinate(' + ', '.join(a.typ for a in args) + ')')
+        return Val(f'({args[0].text}, {args[1].text})', 'Pt')
+
+    def kw(tr, e):
+        # `Coordinate(lon, lat, _bounded=False)`: the pair as given
+        return (isinstance(e.func, A.Name) and e.func.id == 'Coordinate' and [k.arg for k in e.keywords] == ['_bounded']
+                and isinstance(e.keywords[0].value, A.Constant) and e.keywords[0].value.value is False)
+
+    def sorted_hook(tr, e):
+        # `sorted([a, b])` of two floats: the pair (smaller, larger), swapped only if `b < a` (stable)
+        ok = len(e.args) == 1 and not e.keywords and isinstance(e.args[0], A.List) and len(e.args[0].elts) == 2 \
+            and not any(isinstance(x, A.Starred) for x in e.args[0].elts)
+        vals = [tr.expr(x) for x in e.args[0].elts] if ok else []
+        if not ok or [v.typ for v in vals] != ['R', 'R']:
+            raise Unsupported(f'`{A.unparse(e)[:80]}`: only `sorted([<float>, <float>])` is read (as `GV.Py.sort2`)')
+        return Val(f'(GV.Py.sort2 {vals[0].text} {vals[1].text})', 'Prod R R')
+
+    def local_type(qual, name):
+        return {('do_edges_intersect._create_events', '_events'): 'List doEdgesIntersect.Event',
+                ('do_edges_intersect', 'active_events'): 'Set doEdgesIntersect.Event'}.get((qual, name))
+
+    attr = {('Pt', 'longitude'): ('{}.1', 'R'), ('Pt', 'latitude'): ('{}.2', 'R')}
+    abstract = {('Pt', 'to_float', ()): ('{0}', 'Prod R R')}
+    return Unit('SrcSweep', src, 'GV.Src.Sweep', ['GeoVerif.Model.Sweep', 'GeoVerif.Model.PySeq'], insts, {},
+                attr_types=attr, abstract=abstract,
+                pins={'coordinates.py::Coordinate.to_float': PINS['coordinates.py::Coordinate.to_float']},
+                intrinsics={'round_half_up': rnd, 'Coordinate': coordinate},
+                hooks={'isinstance': lambda typ: None, 'prod_tuples': True, 'join_ifs': True, 'map_comprehensions': True,
+                       'group_labels': {'a': ('false', 'Bool'), 'b': ('true', 'Bool')}, 'always_truthy': ('Prod Pt Bool',),
+                       'local_type': local_type, 'sorted': sorted_hook, 'keywords': kw, 'opt_tests_as_issome': True, 'local_defs': True})
+
+
+# ----------------------------------------------------------------------------------------------------------
+# coordinates.py, _base.py, structures.py, multistructures.py :: the WKT writers   (C13)
+#
+# abstraction (that of Model/Wkt.lean): a float is an opaque `F`, `str(x)` is `io.shw x` (the only thing the writers do with a
+# number); a `Coordinate` is the record `GV.Wkt.Coord F`; a shape is what the WKT code reads of it: a point its coordinate,
+# a linestring its vertices, a polygon-like shape its `bounding_coords()` and its holes' `bounding_coords()` (`GV.Wkt.Poly F`,
+# whatever `k`), a multi-shape the list of its members; a full ring additionally the two circles `GeoCircle(center, r)
+# .bounding_coords()` and what `_draw_bounds()` returns (parameters `outerC innerC outerB innerB`).  Strings are Lean
+# strings: f-strings and `+` are `++`, `sep.join(xs)` is `String.intercalate` (the translator subset behind the hook
+# `wkt_text`).  The method a call reaches is found through
+# the class hierarchy of the four files (C3 order), the instance of a class's writer is the definition *that class* inherits.
+
+WKT_FILES = ('structures.py', 'multistructures.py', '_base.py', 'coordinates.py')
+
+
+def wkt_unit():
+    src = py2lean.SourceSet([_repo(f) for f in WKT_FILES])
+    for t, lt in {'WFl': 'F', 'WCoord': 'GV.Wkt.Coord F', 'Str': 'String', 'WPoint': 'GV.Wkt.Coord F',
+                  'WLine': 'List (GV.Wkt.Coord F)', 'WHole': 'List (GV.Wkt.Coord F)', 'WMPoint': 'List (GV.Wkt.Coord F)',
+                  'WMLine': 'List (List (GV.Wkt.Coord F))', 'WMPoly': 'List (GV.Wkt.Poly F)', 'WRing': 'RingView F',
+                  'WCen': 'Unit', 'WOutR': 'Unit', 'WInR': 'Unit',
+                  # readers: the whole text is the WKT value the model reads it as, a ring text its coordinate texts, a
+                  # coordinate text its tokens (`text.split(' ')`), a regex match of a coordinate that coordinate text
+                  'Chr': 'Char', 'WText': 'GV.Wkt.Wkt', 'WRingT': 'List GV.Wkt.CoordT', 'WCoordT': 'GV.Wkt.CoordT',
+                  'WMatch': 'GV.Wkt.CoordT', 'WTok': 'String', 'ZmDict': 'List (Char × F)', 'WK': 'Unit'}.items():
+        py2lean.LEAN_TYPE.setdefault(t, lt)
+    poly_like = {'WPolygon': ('GeoPolygon', 'polygon'), 'WBox': ('GeoBox', 'box'), 'WCircle': ('GeoCircle', 'circle'),
+                 'WEllipse': ('GeoEllipse', 'ellipse')}
+    for t in poly_like:
+        py2lean.LEAN_TYPE.setdefault(t, 'GV.Wkt.Poly F')
+    classes = {'WCoord': 'Coordinate', 'WPoint': 'GeoPoint', 'WLine': 'GeoLineString', 'WMPoint': 'MultiGeoPoint',
+               'WMLine': 'MultiGeoLineString', 'WMPoly': 'MultiGeoPolygon', 'WRing': 'GeoRing'}
+    classes.update({t: c for t, (c, _s) in poly_like.items()})
+
+    def R(cls, attr, after=None):
+        q = src.resolve(cls, attr, after=after)
+        if q is None:
+            raise Unsupported(f'no class of the hierarchy of `{cls}` defines `{attr}`')
+        return q
+
+    RINGS = 'List List WCoord'
+    insts = [
+        Inst('Coordinate.to_str', 'toStr', [('self', 'WCoord')], 'List Str', doc='`reverse` left at its default'),
+        Inst('Coordinate.to_str', 'toStrRev', [('self', 'WCoord'), ('reverse', 'Bool')], 'List Str'),
+        Inst('Coordinate.to_float', 'toFloat', [('self', 'WCoord')], 'List WFl', doc='`reverse` left at its default'),
+        Inst(R('GeoPoint', '_linear_ring_to_wkt'), 'linearRingToWkt', [('ring', 'List WCoord')], 'Str'),
+        Inst(R('GeoPoint', 'centroid'), 'pointCentroid', [('self', 'WPoint')], 'WCoord'),
+        Inst(R('GeoPoint', 'has_z'), 'pointHasZ', [('self', 'WPoint')], 'Bool'),
+        Inst(R('GeoPoint', 'has_m'), 'pointHasM', [('self', 'WPoint')], 'Bool'),
+        Inst(R('GeoPoint', 'to_wkt'), 'pointToWkt', [('self', 'WPoint')], 'Str'),
+        Inst(R('GeoLineString', 'has_z'), 'lineHasZ', [('self', 'WLine')], 'Bool'),
+        Inst(R('GeoLineString', 'has_m'), 'lineHasM', [('self', 'WLine')], 'Bool'),
+        Inst(R('GeoLineString', 'to_wkt'), 'lineToWkt', [('self', 'WLine')], 'Str'),
+    ]
+    for t, (cls, short) in poly_like.items():
+        insts.append(Inst(R(cls, 'linear_rings'), short + 'LinearRings', [('self', t)], RINGS,
+                          doc=f'as `{cls}` inherits it'))
+        insts.append(Inst(R(cls, 'to_wkt'), short + 'ToWkt', [('self', t)], 'Str', doc=f'as `{cls}` inherits it'))
+    ring_to_wkt = R('GeoRing', 'to_wkt')
+    insts += [
+        Inst(R('GeoRing', 'bounding_coords'), 'ringBoundingCoords', [('self', 'WRing')], 'Except List WCoord'),
+        Inst(R('GeoRing', 'linear_rings'), 'ringLinearRings', [('self', 'WRing')], 'Except ' + RINGS),
+        # what `super().to_wkt()` inside GeoRing.to_wkt reaches, on a ring (its `linear_rings()` is GeoRing's)
+        Inst(R('GeoRing', 'to_wkt', after=ring_to_wkt.rsplit('.', 1)[0]), 'ringSuperToWkt', [('self', 'WRing')], 'Except Str',
+             doc='as `super().to_wkt()` of a `GeoRing` reaches it'),
+        Inst(ring_to_wkt, 'ringToWkt', [('self', 'WRing')], 'Except Str'),
+        Inst(R('MultiGeoPoint', 'to_wkt'), 'multiPointToWkt', [('self', 'WMPoint')], 'Str'),
+        Inst(R('MultiGeoLineString', 'to_wkt'), 'multiLineToWkt', [('self', 'WMLine')], 'Str'),
+        Inst(R('MultiGeoPolygon', 'linear_rings'), 'multiPolyLinearRings', [('self', 'WMPoly')], 'List ' + RINGS),
+        Inst(R('MultiGeoPolygon', 'to_wkt'), 'multiPolyToWkt', [('self', 'WMPoly')], 'Str'),
+        # ---- readers: the hand-written logic behind the regular expressions
+        Inst('Coordinate.__eq__', 'coordEq', [('self', 'WCoord'), ('other', 'WCoord')], 'Bool'),
+        Inst('Coordinate.from_wkt', 'coordFromWkt', [('cls', 'WK'), ('wkt_str', 'WCoordT'), ('zm_order', 'Str')], 'Except WCoord'),
+        Inst(R('GeoPoint', '_parse_wkt_linear_ring'), 'parseLinearRing',
+             [('wkt_str', 'WText'), ('wkt_coords', 'WRingT'), ('min_points', 'Int'), ('closed', 'Bool')], 'Except List WCoord'),
+        Inst(R('GeoPoint', '_parse_wkt_linear_ring'), 'parseLinearRingDefault', [('wkt_str', 'WText'), ('wkt_coords', 'WRingT')],
+             'Except List WCoord', doc='`min_points`, `closed` left at their defaults'),
+    ]
+
+    def str_(tr, args):
+        if [a.typ for a in args] != ['WFl']:
+            raise Unsupported('str() of ' + ', '.join(a.typ for a in args))
+        return Val(f'(io.shw {args[0].text})', 'Str')
+
+    def circle(tr, args):
+        # `GeoCircle(self.center, self.outer_radius)` / `… self.inner_radius)`: only its `bounding_coords()` is read
+        which = {('WCen', 'WOutR'): 'outerC', ('WCen', 'WInR'): 'innerC'}.get(tuple(a.typ for a in args))
+        if which is None or any(a.path is None or not a.path.startswith('self.') for a in args):
+            raise Unsupported('GeoCircle(' + ', '.join(a.typ for a in args) + ')')
+        return Val(f'{tr.env["self"].text}.{which}', 'WHole')
+
+    ast = py2lean.ast
+
+    def re_findall_coord(tr, args):
+        if [a.typ for a in args] != ['WRingT']:
+            raise Unsupported('_RE_COORD.findall(' + ', '.join(a.typ for a in args) + ')')
+        return Val(args[0].text, 'List WCoordT')
+
+    def re_findall_zm(tr, args):
+        if [a.typ for a in args] != ['WText']:
+            raise Unsupported('_RE_ZM.findall(' + ', '.join(a.typ for a in args) + ')')
+        return Val(f'(tagList {args[0].text})', 'List Str')
+
+    def re_search_coord(tr, args):
+        if [a.typ for a in args] != ['WText']:
+            raise Unsupported('_RE_COORD.search(' + ', '.join(a.typ for a in args) + ')')
+        return Val(f'({args[0].text}.body.firstCoord)', 'Opt WMatch')
+
+    def dict_(tr, args):
+        if [a.typ for a in args] != ['List Prod Chr WTok']:
+            raise Unsupported('dict(' + ', '.join(a.typ for a in args) + ')')
+        v = Val(f'(dictFloat io {args[0].text})', 'ZmDict')
+        v.raises = True                            # float() of a token that is not a number: ValueError
+        return v
+
+    def method(tr, recv, attr, args):
+        if recv.typ == 'WCoordT' and attr == 'split' and len(args) == 1 and isinstance(args[0], ast.Constant) and args[0].value == ' ':
+            return Val(recv.text, 'List Str')
+        if recv.typ == 'ZmDict' and attr == 'get' and len(args) == 1 and isinstance(args[0], ast.Constant) \
+                and isinstance(args[0].value, str) and len(args[0].value) == 1 and args[0].value.isalpha():
+            return Val(f"(dictGet {recv.text} '{args[0].value}')", 'Opt WFl')
+        return None
+
+    def call_hook(tr, e):
+        f = e.func
+        # `map(float, xs)` is lazy: a list of tokens, each converted when (and if) it is consumed
+        if isinstance(f, ast.Name) and f.id == 'map' and len(e.args) == 2 and not e.keywords and isinstance(e.args[0], ast.Name) \
+                and e.args[0].id == 'float':
+            xs = tr.expr(e.args[1])
+            if xs.typ != 'List Str':
+                raise Unsupported(f'map(float, {xs.typ})')
+            return Val(xs.text, 'List WTok')
+        # `Coordinate(*two_strings, z=…, m=…)`: `Coordinate.__init__` (float() of both, then the range wrapping: C08)
+        if isinstance(f, ast.Name) and f.id == 'Coordinate' and len(e.args) == 1 and isinstance(e.args[0], ast.Starred) \
+                and [k.arg for k in e.keywords] == ['z', 'm']:
+            inner = e.args[0].value
+            if isinstance(inner, ast.Call) and isinstance(inner.func, ast.Name) and inner.func.id == 'cast' and len(inner.args) == 2:
+                inner = inner.args[1]
+            xs, z, m = tr.expr(inner), tr.expr(e.keywords[0].value), tr.expr(e.keywords[1].value)
+            if (xs.typ, z.typ, m.typ) != ('List Str', 'Opt WFl', 'Opt WFl'):
+                raise Unsupported(f'Coordinate(*{xs.typ}, z={z.typ}, m={m.typ})')
+            v = Val(f'(coordOfStrs io {xs.text} {z.text} {m.text})', 'WCoord')
+            v.raises = True
+            return v
+        return None
+
+    def bind_keywords(tr, e):
+        # keyword arguments of a method call put in their positions (parameters skipped in between take their default)
+        f = e.func
+        if not isinstance(f, ast.Attribute) or not isinstance(f.value, ast.Name) or any(k.arg is None for k in e.keywords):
+            return None
+        cls = f.value.id if f.value.id in src.bases and f.value.id not in tr.env else \
+            tr.u.class_of(tr.env[f.value.id].typ) if f.value.id in tr.env else None
+        q = src.resolve(cls, f.attr) if cls in src.bases else None
+        if q is None or len(e.keywords) != 1:
+            return None                          # (several keyword values: their evaluation order would have to be kept)
+        fn = src.get(q)
+        names = [a.arg for a in fn.args.args]
+        if 'staticmethod' not in src.decorators(q):
+            names = names[1:]
+        defaults = dict(zip(reversed(names), reversed(fn.args.defaults)))
+        kw = {k.arg: k.value for k in e.keywords}
+        if not set(kw) <= set(names[len(e.args):]):
+            return None
+        pos = list(e.args)
+        for n in names[len(e.args): max(names.index(k) for k in kw) + 1]:
+            if n in kw:
+                pos.append(kw[n])
+            elif n in defaults:
+                pos.append(defaults[n])
+            else:
+                return None
+        return ast.Call(func=f, args=pos, keywords=[])
+
+    def eq_hook(tr, a, b):
+        if a.typ == b.typ == 'WFl':
+            return Val(f'(io.val {a.text} == io.val {b.text})', 'Bool')         # float == float: equal values
+        if a.typ == b.typ == 'Opt WFl':
+            return Val(f'(GV.Wkt.optEqv io {a.text} {b.text})', 'Bool')         # None == None, float == float, else False
+        return None
+
+    def super_method(tr, attr, args):
+        # `super().m(**kwargs)` inside a method of class C on a receiver of class D: the next definition behind C in D's order
+        owner = tr.inst.qual.rsplit('.', 1)[0]
+        recv = tr.env.get('self')
+        cls = tr.u.class_of(recv.typ) if recv else None
+        q = src.resolve(cls, attr, after=owner) if cls else None
+        if q is None or args:
+            raise Unsupported(f'`{tr.inst.qual}`: super().{attr}')
+        return tr.apply(tr.wk_find(q, (), recv.typ), [recv])
+
+    attr = {('WCoord', 'longitude'): ('{}.lon', 'WFl'), ('WCoord', 'latitude'): ('{}.lat', 'WFl'),
+            ('WCoord', 'z'): ('{}.z', 'Opt WFl'), ('WCoord', 'm'): ('{}.m', 'Opt WFl'),
+            ('WPoint', 'coordinate'): ('{}', 'WCoord'), ('WLine', 'vertices'): ('{}', 'List WCoord'),
+            ('WMPoint', 'geoshapes'): ('{}', 'List WPoint'), ('WMLine', 'geoshapes'): ('{}', 'List WLine'),
+            ('WMPoly', 'geoshapes'): ('{}', 'List WPolygon'),
+            ('WRing', 'holes'): ('{}.holes', 'List WHole'), ('WRing', 'angle_min'): ('{}.amin', 'R'),
+            ('WRing', 'angle_max'): ('{}.amax', 'R'), ('WRing', 'center'): ('()', 'WCen'),
+            ('WRing', 'outer_radius'): ('()', 'WOutR'), ('WRing', 'inner_radius'): ('()', 'WInR')}
+    abstract = {('WHole', 'bounding_coords', ()): ('{0}', 'List WCoord'),
+                ('WRing', '_draw_bounds', ()): ('({0}.outerB, {0}.innerB)', 'Prod (List WCoord) (List WCoord)'),
+                ('WMatch', 'group', ()): ('{0}', 'WCoordT')}
+    for t in poly_like:
+        attr[(t, 'holes')] = ('{}.holes', 'List WHole')
+        attr[(t, 'outline')] = ('{}.outline', 'List WCoord')
+        abstract[(t, 'bounding_coords', ())] = ('{0}.outline', 'List WCoord')
+    header = '\n'.join([
+        'variable {F : Type}', '',
+        '/-- what the WKT writers read of a `GeoRing`: the two angles, `GeoCircle(center, outer_radius / inner_radius)',
+        '    .bounding_coords(**kwargs)`, the pair `_draw_bounds(**kwargs)` returns, and the holes\' `bounding_coords(**kwargs)` -/',
+        'structure RingView (F : Type) where',
+        '  amin : Rat', '  amax : Rat',
+        '  outerC : List (GV.Wkt.Coord F)', '  innerC : List (GV.Wkt.Coord F)',
+        '  outerB : List (GV.Wkt.Coord F)', '  innerB : List (GV.Wkt.Coord F)',
+        '  holes : List (List (GV.Wkt.Coord F))', '',
+        '/-- `_RE_ZM.findall(wkt_str)`: the Z/M tag of the text as a string, if the text has one -/',
+        'def tagList (w : GV.Wkt.Wkt) : List String := if w.tag.isEmpty then [] else [String.ofList w.tag]', '',
+        '/-- `dict(zip(keys, map(float, tokens)))`: `map` is lazy, only the tokens `zip` pairs with a key are converted -/',
+        'def dictFloat (io : GV.Wkt.NumIO F) : List (Char × String) → Except String (List (Char × F))',
+        '  | [] => .ok []',
+        '  | (k, t) :: r =>',
+        '    match io.rd t with',
+        '    | none => .error "ERR:Value"',
+        '    | some x =>',
+        '      match dictFloat io r with',
+        '      | .error e => .error e',
+        '      | .ok d => .ok ((k, x) :: d)', '',
+        '/-- `d.get(k)` of a dict built from pairs: the last pair with that key -/',
+        'def dictGet (d : List (Char × F)) (k : Char) : Option F := (d.reverse.find? (·.1 == k)).map (·.2)', '',
+        '/-- `Coordinate(*strs, z=z, m=m)`: two strings for longitude and latitude (`float()` of each: `ValueError`), then',
+        '    the range wrapping of `Coordinate.__init__` (the model\'s `mkCoord`, tied to the source by C08) -/',
+        'def coordOfStrs (io : GV.Wkt.NumIO F) : List String → Option F → Option F → Except String (GV.Wkt.Coord F)',
+        '  | [lonT, latT], z, m =>',
+        '    match io.rd lonT, io.rd latT with',
+        '    | some lon, some lat => .ok (GV.Wkt.mkCoord io lon lat z m)',
+        '    | _, _ => .error "ERR:Value"',
+        '  | _, _, _ => .error "ERR:Type"'])
+    classes['WK'] = 'GeoPoint'          # `cls` inside a reader: any shape class (they inherit `_parse_wkt_linear_ring` alike)
+
+    def local_type(qual, name):
+        if qual.endswith('.to_wkt'):
+            return {'bbox_strs': 'List Str'}.get(name)
+        return {('Coordinate.from_wkt', 'zm'): 'ZmDict'}.get((qual, name))
+
+    def expr_stmt(tr, value):
+        # `warn_once(…)` only logs
+        return isinstance(value, ast.Call) and isinstance(value.func, ast.Name) and value.func.id == 'warn_once'
+
+    return Unit('SrcWkt', src, 'GV.Src.Wkt', ['GeoVerif.Model.Wkt', 'GeoVerif.Model.PyPrelude', 'GeoVerif.Model.PyPreludeSeq'],
+                insts, classes, header=header, attr_types=attr, abstract=abstract,
+                intrinsics={'str': str_, 'GeoCircle': circle, '_RE_COORD.findall': re_findall_coord,
+                            '_RE_ZM.findall': re_findall_zm, '_RE_COORD.search': re_search_coord, 'dict': dict_},
+                hooks={'isinstance': lambda typ: {'WCoord': {'Coordinate'}}.get(typ), 'wkt_text': True,
+                       'resolve': src.resolve, 'always_truthy': ('WMatch',), 'super_method': super_method,
+                       'local_type': local_type, 'method': method, 'call_whole': call_hook, 'bind_keywords': bind_keywords,
+                       'eq': eq_hook, 'expr_stmt': expr_stmt},
+                ctx_params=[('io', 'GV.Wkt.NumIO F')])
+
+
 UNITS = {'SrcTime': time_unit, 'SrcBase': base_unit, 'SrcMulti': multi_unit, 'SrcColl': coll_unit, 'SrcPip': pip_unit,
          'SrcMember': member_unit, 'SrcTrack': track_unit, 'SrcRelate': relate_unit, 'SrcCoord': coord_unit,
          'SrcCurved': curved_unit, 'SrcCalc': calc_unit}
+UNITS['SrcFlood'] = flood_unit
+UNITS['SrcHull'] = hull_unit
+UNITS['SrcHullPoly'] = hullpoly_unit
+UNITS['SrcHullMulti'] = hullmulti_unit
+UNITS['SrcBounds'] = bounds_unit
+UNITS['SrcMut'] = mut_unit
+UNITS['SrcGeohash'] = geohash_unit
+UNITS['SrcEq'] = eq_unit
+UNITS['SrcSweep'] = sweep_unit
+UNITS['SrcWkt'] = wkt_unit
 
 
 def geojson_unit():
@@ -641,3 +1886,6 @@ def render(name):
     stub = ('/-!\n# GENERATED by harness/py2lean.py — the current source could NOT be translated:\n'
             f'{reason}\n-/\n')
     return stub, reason
+
+
+UNITS['SrcDms'] = dms_unit
